@@ -1,20 +1,46 @@
 (* Proofs for C06: multi-entry containers list every entry, in order. *)
 From WI Require Import Lib.Base Lib.Info Lib.Strings Lib.Time Model.Containers.
+From WI Require Model.Base64 Model.Pem Model.Routes Proofs.Base64 Proofs.Pem.
 From Coq Require Import ZifyN ZifyNat ZifyBool.
 Open Scope N_scope.
 
 (* ====================================================================== *)
 (* Part A.  White space, comments, line splitting                          *)
 
-(* characters a blank line may consist of (no LF; CR is allowed: stray CRs, CRLF files) *)
+(* ASCII blanks (leading blanks of an entry line, separators) *)
 Definition blank_char (c : N) : bool := (c =? 9) || (c =? 11) || (c =? 12) || (c =? 32).
-Definition blank_ok (w : bytes) : bool := forallb (fun c => blank_char c || (c =? 13)) w.
 Definition no_lf (l : bytes) : bool := forallb (fun c => negb (c =? 10)) l.
+(* white space and nothing else: a sequence of white-space runes in the sense of unicode.IsSpace - TAB LF VT FF CR,
+   SPACE, U+0085, U+00A0, U+1680, U+2000..U+200A, U+2028, U+2029, U+202F, U+205F, U+3000 in UTF-8 *)
+Fixpoint all_space (l : bytes) : bool :=
+  match l with
+  | [] => true
+  | a :: r1 =>
+      if is_sp1 a then all_space r1 else
+      match r1 with
+      | b :: r2 =>
+          if is_sp2 a b then all_space r2 else
+          match r2 with
+          | c :: r3 => is_sp3 a b c && all_space r3
+          | [] => false
+          end
+      | [] => false
+      end
+  end.
+(* a blank line: no LF, and what stands before its first CR (the whole line when there is none) is white space *)
+Definition blank_ok (w : bytes) : bool := no_lf w && all_space (cut_at 13 w).
+(* the white space before the '#' of a comment line: white space without LF and CR *)
+Definition comment_ws_ok (w : bytes) : bool := all_space w && forallb (fun c => negb (c =? 10) && negb (c =? 13)) w.
 (* a visible ASCII character other than '#' *)
 Definition graphic (x : N) : bool := (33 <=? x) && (x <? 127).
-(* an entry line: starts with a visible character that is not '#', has no LF and no CR *)
-Definition entry_ok (l : bytes) : bool :=
+(* an entry line: after optional blanks it starts with a visible character that is not '#'; it has no LF and no CR *)
+Fixpoint drop_blank (l : bytes) : bytes :=
   match l with
+  | c :: r => if blank_char c then drop_blank r else l
+  | [] => []
+  end.
+Definition entry_ok (l : bytes) : bool :=
+  match drop_blank l with
   | x :: _ => graphic x && negb (x =? 35)
   | [] => false
   end && forallb (fun c => negb (c =? 10) && negb (c =? 13)) l.
@@ -22,7 +48,7 @@ Definition item_ok (it : item) : bool :=
   match it with
   | IEntry l => entry_ok l
   | IBlank w => blank_ok w
-  | IComment w t => forallb blank_char w && no_lf t
+  | IComment w t => comment_ws_ok w && no_lf t
   end.
 Definition layout_ok (its : list item) : bool := forallb item_ok its.
 
@@ -42,23 +68,43 @@ Proof. intros l. unfold trim_space, rev'. now rewrite <- !rev_alt. Qed.
 Lemma trim_space_all_sp : forall l, forallb is_sp1 l = true -> trim_space l = [].
 Proof. intros l H. rewrite trim_space_rev. now rewrite trim_left_all_sp. Qed.
 
-Lemma cut_blank : forall w, blank_ok w = true -> forallb is_sp1 (cut_at 13 w) = true.
+(* white space in front of a text is all that TrimLeft removes before it looks at the text *)
+Lemma trim_left_skip_space_n : forall n w l, (length w <= n)%nat -> all_space w = true -> trim_left_sp (w ++ l) = trim_left_sp l.
 Proof.
-  induction w as [|c w IH]; cbn [blank_ok forallb cut_at]; [reflexivity|].
-  intros H. apply andb_prop in H as [Hc Hw].
-  destruct (c =? 13) eqn:E; [reflexivity|].
-  cbn [forallb]. rewrite IH by exact Hw. rewrite orb_false_r in Hc.
-  now rewrite (blank_char_sp1 _ Hc).
+  induction n as [|n IH]; intros w l Hn H.
+  - destruct w; [reflexivity|cbn in Hn; lia].
+  - destruct w as [|a r1]; [reflexivity|]. cbn [length] in Hn. cbn [all_space] in H. cbn [app trim_left_sp].
+    destruct (is_sp1 a); [apply IH; [lia|exact H]|].
+    destruct r1 as [|b r2]; [discriminate|]. cbn [length] in Hn. cbn [app].
+    destruct (is_sp2 a b); [apply IH; [lia|exact H]|].
+    destruct r2 as [|c r3]; [discriminate|]. cbn [length] in Hn. cbn [app]. apply andb_prop in H as [H3 H].
+    rewrite H3. apply IH; [lia|exact H].
+Qed.
+Lemma trim_left_skip_space : forall w l, all_space w = true -> trim_left_sp (w ++ l) = trim_left_sp l.
+Proof. intros w l. apply (trim_left_skip_space_n (length w)). apply le_n. Qed.
+
+Lemma trim_space_all_space : forall w, all_space w = true -> trim_space w = [].
+Proof.
+  intros w H. rewrite trim_space_rev. rewrite <- (app_nil_r w). now rewrite trim_left_skip_space.
 Qed.
 
-Lemma blank_ok_app_cr : forall w, blank_ok w = true -> blank_ok (w ++ [13]) = true.
+Lemma cut_at_app_same_cr : forall l x, cut_at 13 (l ++ 13 :: x) = cut_at 13 l.
 Proof.
-  intros w H. unfold blank_ok in *. rewrite forallb_app, H. reflexivity.
+  induction l as [|y l IH]; intros x; cbn [app cut_at]; [reflexivity|].
+  destruct (y =? 13); [reflexivity|]. now rewrite IH.
 Qed.
 
 Lemma skip_blank : forall w, blank_ok w = true -> ssh_skip w = true.
 Proof.
-  intros w H. unfold ssh_skip. now rewrite trim_space_all_sp by (now apply cut_blank).
+  intros w H. unfold blank_ok in H. apply andb_prop in H as [_ H]. unfold ssh_skip.
+  now rewrite trim_space_all_space.
+Qed.
+
+(* ... with or without the CR of a CRLF ending *)
+Lemma skip_blank_cr : forall w, blank_ok w = true -> ssh_skip (w ++ [13]) = true.
+Proof.
+  intros w H. unfold blank_ok in H. apply andb_prop in H as [_ H]. unfold ssh_skip.
+  rewrite cut_at_app_same_cr. now rewrite trim_space_all_space.
 Qed.
 
 (* a visible first byte survives trimming on both sides *)
@@ -103,12 +149,12 @@ Proof.
   rewrite Hs, rev_app_distr. cbn [rev app]. eauto.
 Qed.
 
-Lemma cut_at_app_stop : forall w x t, forallb blank_char w = true ->
+Lemma cut_at_app_stop : forall w x t, forallb (fun c => negb (c =? 10) && negb (c =? 13)) w = true ->
   cut_at 13 (w ++ x :: t) = w ++ cut_at 13 (x :: t).
 Proof.
   induction w as [|c w IH]; intros x t H; [reflexivity|].
   cbn [forallb] in H. apply andb_prop in H as [Hc Hw].
-  cbn [app cut_at]. assert (c =? 13 = false) as -> by (unfold blank_char in Hc; lia).
+  cbn [app cut_at]. assert (c =? 13 = false) as -> by lia.
   now rewrite IH.
 Qed.
 
@@ -119,11 +165,12 @@ Proof.
   cbn [app trim_left_sp]. rewrite (blank_char_sp1 _ Hc). now apply IH.
 Qed.
 
-Lemma skip_comment : forall w t, forallb blank_char w = true -> ssh_skip (w ++ 35 :: t) = true.
+Lemma skip_comment : forall w t, comment_ws_ok w = true -> ssh_skip (w ++ 35 :: t) = true.
 Proof.
-  intros w t Hw. unfold ssh_skip. rewrite cut_at_app_stop by exact Hw.
+  intros w t Hw. unfold comment_ws_ok in Hw. apply andb_prop in Hw as [Hsp Hw].
+  unfold ssh_skip. rewrite cut_at_app_stop by exact Hw.
   cbn [cut_at]. change (35 =? 13) with false. cbv iota.
-  rewrite trim_space_rev. rewrite trim_left_skip_ws by exact Hw.
+  rewrite trim_space_rev. rewrite trim_left_skip_space by exact Hsp.
   rewrite <- trim_space_rev.
   destruct (trim_space_head 35 (cut_at 13 t) eq_refl) as [t' ->]. reflexivity.
 Qed.
@@ -137,11 +184,21 @@ Proof.
     destruct (IH Hl) as [-> ->]. split; reflexivity.
 Qed.
 
+Lemma drop_blank_split : forall l, exists w, l = w ++ drop_blank l /\ forallb blank_char w = true.
+Proof.
+  induction l as [|c l [w [E Hw]]]; [exists []; split; reflexivity|]. cbn [drop_blank].
+  destruct (blank_char c) eqn:Ec.
+  - exists (c :: w). split; [cbn [app]; now rewrite <- E|cbn [forallb]; now rewrite Ec, Hw].
+  - exists []. split; reflexivity.
+Qed.
+
 Lemma skip_entry : forall e, entry_ok e = true -> ssh_skip e = false /\ ssh_skip (e ++ [13]) = false.
 Proof.
   intros e H. unfold entry_ok in H. apply andb_prop in H as [Hh Hall].
   destruct (cut_at_none e Hall) as [C1 C2]. unfold ssh_skip. rewrite C1, C2.
-  destruct e as [|x t]; [discriminate|]. apply andb_prop in Hh as [Hg Hx].
+  destruct (drop_blank_split e) as [w [E Hw]].
+  destruct (drop_blank e) as [|x t]; [discriminate|]. apply andb_prop in Hh as [Hg Hx].
+  rewrite E. rewrite trim_space_rev, trim_left_skip_ws by exact Hw. rewrite <- trim_space_rev.
   destruct (trim_space_head x t Hg) as [t' ->]. split; lia.
 Qed.
 
@@ -187,11 +244,10 @@ Proof.
   intros [l|w|w t]; cbn [item_ok item_line]; intros H.
   - unfold entry_ok in H. apply andb_prop in H as [_ H]. unfold no_lf.
     rewrite forallb_forall in *. intros c Hc. specialize (H c Hc). lia.
-  - unfold blank_ok in H. unfold no_lf. rewrite forallb_forall in *. intros c Hc. specialize (H c Hc).
-    unfold blank_char in H. lia.
-  - apply andb_prop in H as [Hw Ht]. unfold no_lf in *. rewrite forallb_app. cbn [forallb].
-    rewrite Ht, andb_true_r. rewrite forallb_forall in *. intros c Hc. specialize (Hw c Hc).
-    unfold blank_char in Hw. lia.
+  - unfold blank_ok in H. now apply andb_prop in H as [H _].
+  - apply andb_prop in H as [Hw Ht]. unfold comment_ws_ok in Hw. apply andb_prop in Hw as [_ Hw].
+    unfold no_lf in *. rewrite forallb_app. cbn [forallb].
+    rewrite Ht, andb_true_r. rewrite forallb_forall in *. intros c Hc. specialize (Hw c Hc). lia.
 Qed.
 
 (* the attributes the library reports for a line (meaningful where it answers Ok) *)
@@ -222,8 +278,7 @@ Section SshLayout.
       { destruct le; cbn [cr]; [rewrite app_nil_r|]; auto. }
       unfold ssh_child, lib_attrs. rewrite L1. reflexivity.
     - assert (ssh_skip (w ++ cr le) = true) as ->.
-      { destruct le; cbn [cr]; [rewrite app_nil_r; now apply skip_blank|].
-        apply skip_blank. now apply blank_ok_app_cr. }
+      { destruct le; cbn [cr]; [rewrite app_nil_r; now apply skip_blank|now apply skip_blank_cr]. }
       destruct (ssh_lines ssh_skip lib rest); reflexivity.
     - apply andb_prop in Hok as [Hw Ht].
       assert (ssh_skip ((w ++ 35 :: t) ++ cr le) = true) as ->.
@@ -1050,7 +1105,8 @@ Qed.
 
 (* non-vacuity: a realistic layout meets the hypotheses *)
 Definition example_layout : list item :=
-  [IComment [] (bs " my keys"); IEntry toy_k1; IBlank [32; 9]; IComment [32] (bs "ssh-rsa AAAA disabled"); IEntry toy_k2; IBlank []].
+  [IComment [] (bs " my keys"); IEntry toy_k1; IBlank [32; 9]; IBlank [194; 160; 227; 128; 128]; IComment [32] (bs "ssh-rsa AAAA disabled");
+   IComment [226; 128; 131; 9] (0 :: bs " NUL, CR " ++ [13] ++ bs " inside"); IEntry toy_k2; IBlank [32; 13; 120]; IBlank []].
 
 Lemma example_layout_ok : layout_ok example_layout = true /\
   (forall e, In e (entries_of example_layout) -> lib_accepts toy_lib e) /\
@@ -1174,3 +1230,1775 @@ Definition example_bundle : list (bytes * pblock) :=
    ([10], mkpblock (bs "PRIVATE KEY") [48; 2])].
 Lemma example_bundle_ok : bundle_ok example_bundle (bs "trailing text" ++ [10]) = true /\ length (listed example_bundle) = 3%nat.
 Proof. split; vm_compute; reflexivity. Qed.
+
+(* ====================================================================== *)
+(* Part G.  PEM bundles over the bytes of the file: encoding/pem.Decode as modelled in Model/Pem.v *)
+
+Module MP := WI.Model.Pem.
+Module PP := WI.Proofs.Pem.
+Module B64 := WI.Model.Base64.
+Module PB64 := WI.Proofs.Base64.
+
+Lemma pem_eol_routes : forall crlf, pem_eol crlf = Routes.eol crlf.
+Proof. reflexivity. Qed.
+
+Definition cr_of (crlf : bool) : bytes := if crlf then [13] else [].
+Lemma pem_eol_split : forall crlf, pem_eol crlf = cr_of crlf ++ [10].
+Proof. now intros [|]. Qed.
+
+Lemma take_app_le : forall (A : Type) n (a y : list A), (n <= length a)%nat -> take n (a ++ y) = take n a.
+Proof.
+  induction n as [|n IH]; intros a y H; [reflexivity|]. destruct a as [|x a]; [cbn in H; lia|].
+  cbn [app take]. rewrite IH by (cbn in H; lia). reflexivity.
+Qed.
+
+Lemma in_drop_sp_tab : forall m c, In c m -> MP.is_sp_tab c = false -> In c (MP.drop_sp_tab m).
+Proof.
+  induction m as [|x m IH]; intros c H Hc; [contradiction|]. cbn [MP.drop_sp_tab].
+  destruct (MP.is_sp_tab x) eqn:E; [|exact H].
+  destruct H as [->|H]; [congruence|now apply IH].
+Qed.
+
+Lemma in_trim_right : forall l c, In c l -> MP.is_sp_tab c = false -> In c (MP.trim_right_sp_tab l).
+Proof.
+  intros l c H Hc. unfold MP.trim_right_sp_tab. apply -> in_rev. apply in_drop_sp_tab; [now apply in_rev in H|exact Hc].
+Qed.
+
+(* getLine on a line that is terminated by a line feed *)
+Lemma get_line_lf : forall h y, ~ In 10 h ->
+  exists line, MP.get_line (h ++ 10 :: y) = (line, y)
+    /\ (forall c, In c line -> In c h)
+    /\ (forall c, In c h -> c <> 13 -> MP.is_sp_tab c = false -> In c line).
+Proof.
+  intros h y Hn. unfold MP.get_line. rewrite PP.index_byte_app by exact Hn.
+  assert (Hdrop : drop (S (length h)) (h ++ 10 :: y) = y).
+  { replace (h ++ 10 :: y) with ((h ++ [10]) ++ y) by (now rewrite <- app_assoc).
+    replace (S (length h)) with (length (h ++ [10])) by (rewrite app_length; cbn; lia). apply PP.drop_app_length. }
+  rewrite Hdrop.
+  induction h as [|x h0 _] using rev_ind.
+  - exists []. split; [reflexivity|]. split; intros c H; contradiction.
+  - rewrite app_length. cbn [length].
+    replace (Nat.ltb 0 (length h0 + 1)) with true by (symmetry; apply Nat.ltb_lt; lia).
+    replace (length h0 + 1 - 1)%nat with (length h0) by lia.
+    rewrite <- app_assoc. cbn [app]. rewrite PP.nth_app_length. cbn [andb].
+    destruct (x =? 13) eqn:Ex.
+    + apply N.eqb_eq in Ex. subst x.
+      rewrite PP.take_app_length. eexists. split; [reflexivity|]. split.
+      * intros c H. apply PP.trim_right_incl in H. apply in_or_app. now left.
+      * intros c H Hc Hs. apply in_trim_right; [|exact Hs].
+        apply in_app_or in H as [H|[H|[]]]; [exact H|congruence].
+    + replace (h0 ++ x :: 10 :: y) with ((h0 ++ [x]) ++ 10 :: y) by (now rewrite <- app_assoc).
+      replace (length h0 + 1)%nat with (length (h0 ++ [x])) by (rewrite app_length; cbn; lia).
+      rewrite PP.take_app_length. eexists. split; [reflexivity|]. split.
+      * intros c H. now apply PP.trim_right_incl in H.
+      * intros c H Hc Hs. now apply in_trim_right.
+Qed.
+
+Lemma index_byte_none : forall c l, ~ In c l -> MP.index_byte c l = None.
+Proof.
+  induction l as [|x l IH]; intros H; [reflexivity|]. cbn [MP.index_byte].
+  destruct (x =? c) eqn:E; [apply N.eqb_eq in E; exfalso; apply H; now left|].
+  rewrite IH by (intros Hi; apply H; now right). reflexivity.
+Qed.
+
+(* getLine on the last line of the data *)
+Lemma get_line_last : forall h, ~ In 10 h -> MP.get_line h = (MP.trim_right_sp_tab h, []).
+Proof. intros h H. unfold MP.get_line. now rewrite index_byte_none. Qed.
+
+Definition no_colon (l : bytes) : bool := negb (existsb (fun c => c =? 58) l).
+Lemma no_colon_intro : forall l, ~ In 58 l -> existsb (fun c => c =? 58) l = false.
+Proof.
+  intros l H. destruct (existsb (fun c => c =? 58) l) eqn:E; [|reflexivity].
+  apply existsb_exists in E as [x [Hx E]]. apply N.eqb_eq in E. subst x. contradiction.
+Qed.
+Lemma colon_intro : forall l, In 58 l -> existsb (fun c => c =? 58) l = true.
+Proof. intros l H. apply existsb_exists. exists 58. now split. Qed.
+
+Lemma skip_headers_step : forall f rest line next n, rest <> [] -> MP.get_line rest = (line, next) ->
+  existsb (fun c => c =? 58) line = true -> MP.skip_headers (S f) rest n = MP.skip_headers f next (S n).
+Proof.
+  intros f rest line next n Hne Hg Hl. cbn [MP.skip_headers]. destruct rest as [|c r]; [congruence|].
+  now rewrite Hg, Hl.
+Qed.
+
+(* the header lines: every line with a colon is consumed; the first line without one stops the loop *)
+Lemma skip_headers_lines : forall crlf hs x line next n fuel,
+  (forall h, In h hs -> In 58 h /\ ~ In 10 h) -> (length hs < fuel)%nat ->
+  x <> [] -> MP.get_line x = (line, next) -> existsb (fun c => c =? 58) line = false ->
+  MP.skip_headers fuel (concat (map (fun h => h ++ pem_eol crlf) hs) ++ x) n = Some (x, (n + length hs)%nat).
+Proof.
+  intros crlf. induction hs as [|h hs IH]; intros x line next n fuel Hh Hf Hx Hg Hl.
+  - destruct fuel as [|f]; [cbn in Hf; lia|]. cbn [map concat app length].
+    rewrite (PP.skip_headers_none f x line next n Hx Hg Hl). f_equal. f_equal. lia.
+  - destruct fuel as [|f]; [cbn in Hf; lia|]. cbn [map concat].
+    destruct (Hh h (or_introl eq_refl)) as [H58 H10].
+    rewrite pem_eol_split. rewrite <- !app_assoc.
+    set (R := concat (map (fun h0 => h0 ++ cr_of crlf ++ [10]) hs) ++ x).
+    assert (Hn : ~ In 10 (h ++ cr_of crlf)).
+    { intros H. apply in_app_or in H as [H|H]; [now apply H10|]. destruct crlf; cbn in H; [destruct H as [H|[]]; discriminate|contradiction]. }
+    destruct (get_line_lf (h ++ cr_of crlf) R Hn) as (ln & Hgl & _ & Hin).
+    replace (h ++ cr_of crlf ++ [10] ++ R) with ((h ++ cr_of crlf) ++ 10 :: R) by (now rewrite <- app_assoc).
+    rewrite (skip_headers_step f _ ln R n); [|destruct h; [contradiction|discriminate]|exact Hgl|].
+    2:{ apply colon_intro. apply Hin; [apply in_or_app; now left|discriminate|reflexivity]. }
+    unfold R.
+    assert (Hrec := IH x line next (S n) f (fun h' Hh' => Hh h' (or_intror Hh')) ltac:(cbn in Hf; lia) Hx Hg Hl).
+    rewrite pem_eol_split in Hrec.
+    replace (fun h0 : list N => h0 ++ cr_of crlf ++ [10]) with (fun h0 : list N => h0 ++ (cr_of crlf ++ [10])) by reflexivity.
+    rewrite Hrec. f_equal. f_equal. cbn [length]. lia.
+Qed.
+
+(* pem.go:137-183, what Decode does once the type line and the headers are read *)
+Definition finish (typ rest2 : bytes) (nh : nat) : MP.attempt :=
+  let idx : option (nat * nat) :=
+    if Nat.eqb nh 0 && prefix_of MP.pem_end rest2 then Some (O, length MP.pem_end)
+    else match index_of (10 :: MP.pem_end) rest2 with
+         | Some i => Some (i, (i + S (length MP.pem_end))%nat)
+         | None => None
+         end in
+  match idx with
+  | None => MP.Retry rest2
+  | Some (end_index, end_trailer_index) =>
+      let end_trailer := drop end_trailer_index rest2 in
+      let etl := (length typ + length MP.pem_dashes)%nat in
+      if Nat.ltb (length end_trailer) etl then MP.Retry rest2
+      else
+        let rest_of_end_line := drop etl end_trailer in
+        let et := take etl end_trailer in
+        if negb (prefix_of typ et) || negb (has_suffix MP.pem_dashes et) then MP.Retry rest2
+        else
+          match fst (MP.get_line rest_of_end_line) with
+          | _ :: _ => MP.Retry rest2
+          | [] =>
+              match B64.std_decode B64.Std (MP.remove_sp_tab (take end_index rest2)) with
+              | None => MP.Retry rest2
+              | Some body =>
+                  MP.Found typ body (snd (MP.get_line (drop (end_index + length MP.pem_end) rest2)))
+              end
+          end
+  end.
+
+Lemma attempt_block_split : forall rest0 tl rest1 rest2 nh,
+  MP.get_line rest0 = (tl, rest1) -> has_suffix MP.pem_dashes tl = true ->
+  MP.skip_headers (S (length rest1)) rest1 O = Some (rest2, nh) ->
+  MP.attempt_block rest0 = finish (take (length tl - length MP.pem_dashes) tl) rest2 nh.
+Proof.
+  intros rest0 tl rest1 rest2 nh H1 H2 H3. unfold MP.attempt_block. rewrite H1, H2. cbn [negb].
+  rewrite H3. reflexivity.
+Qed.
+
+(* the END line *)
+Definition fin_eol (crlf fin : bool) : bytes := if fin then pem_eol crlf else [].
+
+Lemma end_marker_no_lf : forall label m, ~ In 10 label -> ~ In 10 m -> ~ In 10 (m ++ label ++ MP.pem_dashes).
+Proof.
+  intros label m Hl Hm H. apply in_app_or in H as [H|H]; [now apply Hm|].
+  apply in_app_or in H as [H|H]; [now apply Hl|].
+  cbn in H. repeat (destruct H as [H|H]; [discriminate|]). contradiction.
+Qed.
+
+Lemma end_marker_trim : forall label m, MP.trim_right_sp_tab (m ++ label ++ MP.pem_dashes) = m ++ label ++ MP.pem_dashes.
+Proof.
+  intros label m. replace (m ++ label ++ MP.pem_dashes) with ((m ++ label ++ bs "----") ++ [45]).
+  2:{ rewrite <- !app_assoc. reflexivity. }
+  now apply PP.trim_right_keep.
+Qed.
+
+(* the line that holds a marker, the label and the dashes, then the end of the line or of the data *)
+Lemma end_marker_line : forall label crlf fin post m, ~ In 10 label -> (fin = true \/ post = []) -> ~ In 10 m ->
+  MP.get_line (m ++ label ++ MP.pem_dashes ++ fin_eol crlf fin ++ post) = (m ++ label ++ MP.pem_dashes, post).
+Proof.
+  intros label crlf fin post m Hl Hf Hm. destruct fin; cbn [fin_eol].
+  - replace (m ++ label ++ MP.pem_dashes ++ pem_eol crlf ++ post)
+      with ((m ++ label ++ MP.pem_dashes) ++ Routes.eol crlf ++ post) by (now rewrite <- !app_assoc).
+    now apply PP.marker_line.
+  - destruct Hf as [Hf|Hf]; [discriminate|]. subst post. cbn [app]. rewrite app_nil_r.
+    rewrite get_line_last by (now apply end_marker_no_lf). now rewrite end_marker_trim.
+Qed.
+
+Lemma end_rest_line : forall crlf fin post, (fin = true \/ post = []) -> fst (MP.get_line (fin_eol crlf fin ++ post)) = [].
+Proof.
+  intros crlf fin post Hf. destruct fin; cbn [fin_eol].
+  - change (pem_eol crlf) with (Routes.eol crlf). now rewrite PP.get_line_empty.
+  - destruct Hf as [Hf|Hf]; [discriminate|]. subst post. reflexivity.
+Qed.
+
+(* the common end of both ways to find the END line: the trailer is checked, the body decoded *)
+Lemma finish_common : forall label crlf fin post rest2 end_index k d,
+  ~ In 10 label -> (fin = true \/ post = []) ->
+  drop (end_index + k) rest2 = label ++ MP.pem_dashes ++ fin_eol crlf fin ++ post ->
+  (exists m, ~ In 10 m /\ drop (end_index + length MP.pem_end) rest2 = m ++ label ++ MP.pem_dashes ++ fin_eol crlf fin ++ post) ->
+  B64.std_decode B64.Std (MP.remove_sp_tab (take end_index rest2)) = Some d ->
+  (let end_trailer := drop (end_index + k) rest2 in
+   let etl := (length label + length MP.pem_dashes)%nat in
+   if Nat.ltb (length end_trailer) etl then MP.Retry rest2
+   else
+     let rest_of_end_line := drop etl end_trailer in
+     let et := take etl end_trailer in
+     if negb (prefix_of label et) || negb (has_suffix MP.pem_dashes et) then MP.Retry rest2
+     else
+       match fst (MP.get_line rest_of_end_line) with
+       | _ :: _ => MP.Retry rest2
+       | [] =>
+           match B64.std_decode B64.Std (MP.remove_sp_tab (take end_index rest2)) with
+           | None => MP.Retry rest2
+           | Some body =>
+               MP.Found label body (snd (MP.get_line (drop (end_index + length MP.pem_end) rest2)))
+           end
+       end) = MP.Found label d post.
+Proof.
+  intros label crlf fin post rest2 end_index k d Hl Hf Hdrop [m [Hm Hdrop2]] Hdec. cbv zeta.
+  rewrite Hdrop, Hdrop2, Hdec.
+  rewrite !app_length.
+  replace (Nat.ltb (length label + (length MP.pem_dashes + (length (fin_eol crlf fin) + length post)))
+                   (length label + length MP.pem_dashes)) with false by (symmetry; apply Nat.ltb_ge; lia).
+  replace (label ++ MP.pem_dashes ++ fin_eol crlf fin ++ post) with ((label ++ MP.pem_dashes) ++ fin_eol crlf fin ++ post)
+    by (now rewrite <- app_assoc).
+  replace (length label + length MP.pem_dashes)%nat with (length (label ++ MP.pem_dashes)) by (now rewrite app_length).
+  rewrite PP.drop_app_length, PP.take_app_length, PP.prefix_of_app, PP.has_suffix_app. cbn [negb orb].
+  rewrite end_rest_line by exact Hf.
+  rewrite <- app_assoc. rewrite end_marker_line by assumption. reflexivity.
+Qed.
+
+(* the END line is found through "\n-----END " after a body text without dashes *)
+Lemma finish_index : forall label crlf fin post pre0 nh d,
+  ~ In 10 label -> (fin = true \/ post = []) ->
+  forallb PP.body_char pre0 = true -> B64.std_decode B64.Std pre0 = Some d ->
+  (nh <> O \/ match pre0 with c :: _ => PP.body_char c = true | [] => False end) ->
+  finish label (pre0 ++ (10 :: MP.pem_end) ++ label ++ MP.pem_dashes ++ fin_eol crlf fin ++ post) nh = MP.Found label d post.
+Proof.
+  intros label crlf fin post pre0 nh d Hl Hf Hpre Hdec Hnh. unfold finish.
+  set (E := label ++ MP.pem_dashes ++ fin_eol crlf fin ++ post).
+  assert (Hcond : Nat.eqb nh 0 && prefix_of MP.pem_end (pre0 ++ (10 :: MP.pem_end) ++ E) = false).
+  { destruct Hnh as [Hnh|Hnh].
+    - destruct nh; [congruence|reflexivity].
+    - destruct pre0 as [|c t]; [contradiction|]. rewrite andb_false_iff. right.
+      cbn [app]. change MP.pem_end with (45 :: bs "----END "). cbn [prefix_of].
+      destruct (45 =? c) eqn:Ec; [|reflexivity]. apply N.eqb_eq in Ec. subst c. discriminate Hnh. }
+  rewrite Hcond.
+  assert (Hidx : index_of (10 :: MP.pem_end) (pre0 ++ (10 :: MP.pem_end) ++ E) = Some (length pre0)).
+  { unfold index_of. change ((10 :: MP.pem_end) ++ E) with (10 :: 45 :: bs "----END " ++ E).
+    change (10 :: MP.pem_end) with (10 :: 45 :: bs "----END ").
+    rewrite PP.index_after_dashless; [reflexivity|].
+    apply (PP.forallb_not_in PP.body_char); [exact Hpre|reflexivity]. }
+  rewrite Hidx.
+  apply (finish_common label crlf fin post _ (length pre0) (S (length MP.pem_end)) d Hl Hf).
+  - replace (length pre0 + S (length MP.pem_end))%nat with (length pre0 + length (10%N :: MP.pem_end))%nat by reflexivity.
+    apply PP.drop_app_plus.
+  - exists [32]. split; [intros [H|[]]; discriminate|].
+    replace (pre0 ++ (10 :: MP.pem_end) ++ E) with ((pre0 ++ (10 :: bs "-----END")) ++ ([32] ++ E)).
+    2:{ rewrite <- !app_assoc. reflexivity. }
+    replace (length pre0 + length MP.pem_end)%nat with (length (pre0 ++ (10 :: bs "-----END"))).
+    2:{ rewrite !app_length. reflexivity. }
+    apply PP.drop_app_length.
+  - rewrite PP.take_app_length. unfold MP.remove_sp_tab. rewrite PP.filter_id; [exact Hdec|].
+    rewrite forallb_forall in *. intros x Hx. specialize (Hpre x Hx). unfold PP.body_char in Hpre.
+    apply andb_true_iff in Hpre as [_ H]. exact H.
+Qed.
+
+(* an empty block without headers: the END line follows the BEGIN line immediately *)
+Lemma finish_prefix : forall label crlf fin post,
+  ~ In 10 label -> (fin = true \/ post = []) ->
+  finish label (MP.pem_end ++ label ++ MP.pem_dashes ++ fin_eol crlf fin ++ post) O = MP.Found label [] post.
+Proof.
+  intros label crlf fin post Hl Hf. unfold finish. rewrite PP.prefix_of_app. cbn [Nat.eqb andb].
+  apply (finish_common label crlf fin post _ O (length MP.pem_end) [] Hl Hf).
+  - apply PP.drop_app_length.
+  - exists []. split; [intros []|]. cbn [app Nat.add]. apply PP.drop_app_length.
+  - reflexivity.
+Qed.
+
+(* the base64 text of a body, broken into lines of any width *)
+Lemma wrapped_chars : forall w crlf d, bytes_ok d = true ->
+  forallb PP.body_char (B64.wrap w crlf (B64.encode B64.Std d)) = true.
+Proof.
+  intros w crlf d H. apply PP.wrap_forall; try reflexivity. unfold B64.encode.
+  apply (PP.encode_core_forall PP.body_char false true) with (n := S (length d)); try reflexivity; [|lia|assumption].
+  intros v Hv.
+  exact (PB64.forall_range (fun v => PP.body_char (B64.b64char false v)) 64 ltac:(vm_compute; reflexivity) v Hv).
+Qed.
+
+Lemma wrapped_strip : forall w crlf d, bytes_ok d = true ->
+  B64.strip_nl (B64.wrap w crlf (B64.encode B64.Std d)) = B64.encode_core false true d
+  /\ forall f, (length (B64.encode_core false true d) < f)%nat -> B64.core f false true (B64.encode_core false true d) = Some d.
+Proof.
+  intros w crlf d H.
+  destruct (PB64.encode_core_props false true (S (length d)) d (Nat.lt_succ_diag_r _) H) as [Hnl Hc].
+  split; [|exact Hc]. unfold B64.encode. cbn [B64.enc_url B64.enc_padded]. now apply PB64.strip_wrap.
+Qed.
+
+Lemma strip_nl_crs : forall crlf, B64.strip_nl (cr_of crlf) = [] /\ B64.strip_nl (pem_eol crlf) = [].
+Proof. intros [|]; split; reflexivity. Qed.
+
+Lemma encode_core_nonempty : forall d, d <> [] -> B64.encode_core false true d <> [].
+Proof. intros [|a [|b [|c r]]] H; [congruence|discriminate..]. Qed.
+
+Lemma wrapped_head : forall w crlf d, bytes_ok d = true -> d <> [] ->
+  match B64.wrap w crlf (B64.encode B64.Std d) with c :: _ => PP.body_char c = true | [] => False end.
+Proof.
+  intros w crlf d H Hne. pose proof (wrapped_chars w crlf d H) as Hc.
+  destruct (wrapped_strip w crlf d H) as [Hs _].
+  destruct (B64.wrap w crlf (B64.encode B64.Std d)) as [|c t].
+  - cbn in Hs. symmetry in Hs. now apply encode_core_nonempty in Hs.
+  - cbn [forallb] in Hc. now apply andb_true_iff in Hc as [Hc _].
+Qed.
+
+Lemma body_char_crs : forall crlf, forallb PP.body_char (cr_of crlf) = true /\ forallb PP.body_char (pem_eol crlf) = true.
+Proof. intros [|]; split; reflexivity. Qed.
+
+(* what a block may look like for pem.Decode to return it (block_ok, boolean):
+   the label has no line feed; header lines have a colon and no line feed; the body consists of octets;
+   an empty block without headers must not have a colon in its label (its END line would be read as a header) *)
+Definition has_byte (c : N) (l : bytes) : bool := existsb (fun x => x =? c) l.
+Definition block_ok (b : ablock) : bool :=
+  negb (has_byte 10 (ab_label b))
+  && forallb (fun h => has_byte 58 h && negb (has_byte 10 h)) (ab_headers b)
+  && bytes_ok (ab_body b)
+  && (negb (is_nil (ab_headers b)) || negb (is_nil (ab_body b)) || negb (has_byte 58 (ab_label b))).
+
+Lemma has_byte_false : forall c l, has_byte c l = false -> ~ In c l.
+Proof.
+  intros c l H Hin. unfold has_byte in H.
+  assert (existsb (fun x => x =? c) l = true) by (apply existsb_exists; exists c; split; [assumption|apply N.eqb_refl]).
+  congruence.
+Qed.
+Lemma has_byte_true : forall c l, has_byte c l = true -> In c l.
+Proof. intros c l H. apply existsb_exists in H as [x [Hx E]]. apply N.eqb_eq in E. now subst x. Qed.
+
+Lemma concat_lines_length : forall crlf hs, (forall h, In h hs -> In 58 h) ->
+  (length hs <= length (concat (map (fun h => h ++ pem_eol crlf) hs)))%nat.
+Proof.
+  intros crlf. induction hs as [|h hs IH]; intros H; cbn [map concat length]; [lia|].
+  rewrite !app_length. specialize (IH (fun h' Hh' => H h' (or_intror Hh'))).
+  destruct h; [destruct (H [] (or_introl eq_refl))|]. cbn [length]. lia.
+Qed.
+
+(* pem.Decode, one pass of its loop, right after the "-----BEGIN " of an armored block *)
+Theorem attempt_armor : forall b post, block_ok b = true -> (ab_fin b = true \/ post = []) ->
+  MP.attempt_block (drop (length pem_begin) (armor b ++ post)) = MP.Found (ab_label b) (ab_body b) post.
+Proof.
+  intros [label hs d w crlf fin] post Hok Hf. cbn [ab_fin] in Hf.
+  unfold block_ok in Hok. cbn [ab_label ab_headers ab_body] in Hok.
+  apply andb_true_iff in Hok as [Hok Hcolon]. apply andb_true_iff in Hok as [Hok Hd].
+  apply andb_true_iff in Hok as [Hl Hhs].
+  assert (Hl10 : ~ In 10 label) by (apply has_byte_false; now destruct (has_byte 10 label)).
+  assert (Hh : forall h, In h hs -> In 58 h /\ ~ In 10 h).
+  { intros h Hin. rewrite forallb_forall in Hhs. specialize (Hhs h Hin). apply andb_true_iff in Hhs as [H1 H2].
+    split; [now apply has_byte_true|apply has_byte_false; now destruct (has_byte 10 h)]. }
+  unfold armor. cbn [ab_label ab_headers ab_body ab_wrap ab_crlf ab_fin].
+  rewrite <- !app_assoc. rewrite PP.drop_app_length.
+  set (E := label ++ pem_dashes ++ fin_eol crlf fin ++ post).
+  set (rest1 := armor_headers crlf hs ++ armor_body w crlf d ++ pem_end ++ E).
+  change (MP.attempt_block (label ++ pem_dashes ++ pem_eol crlf ++ rest1) = MP.Found label d post).
+  assert (Htl : MP.get_line (label ++ pem_dashes ++ pem_eol crlf ++ rest1) = (label ++ MP.pem_dashes, rest1)).
+  { replace (label ++ pem_dashes ++ pem_eol crlf ++ rest1) with (([] ++ label ++ MP.pem_dashes) ++ Routes.eol crlf ++ rest1)
+      by (cbn [app]; now rewrite <- !app_assoc).
+    rewrite (PP.marker_line label crlf Hl10 [] (fun H => H)). reflexivity. }
+  assert (Htyp : take (length (label ++ MP.pem_dashes) - length MP.pem_dashes) (label ++ MP.pem_dashes) = label).
+  { rewrite app_length. replace (length label + length MP.pem_dashes - length MP.pem_dashes)%nat with (length label) by lia.
+    apply PP.take_app_length. }
+  assert (Hsplit : forall rest2 nh, MP.skip_headers (S (length rest1)) rest1 O = Some (rest2, nh) ->
+            MP.attempt_block (label ++ pem_dashes ++ pem_eol crlf ++ rest1) = finish label rest2 nh).
+  { intros rest2 nh Hs. rewrite <- Htyp at 2.
+    apply (attempt_block_split _ (label ++ MP.pem_dashes) rest1 rest2 nh Htl (PP.has_suffix_app label MP.pem_dashes) Hs). }
+  clear Htl Htyp.
+  (* the text before "\n-----END " and what it decodes to *)
+  destruct (wrapped_strip w crlf d Hd) as [Hstrip Hcore].
+  destruct (strip_nl_crs crlf) as [Hscr Hseol]. destruct (body_char_crs crlf) as [Hccr Hceol].
+  pose proof (wrapped_chars w crlf d Hd) as Hwc.
+  set (W := B64.wrap w crlf (B64.encode B64.Std d)) in *.
+  assert (HdecW : forall a z, B64.strip_nl a = [] -> B64.strip_nl z = [] -> B64.std_decode B64.Std (a ++ W ++ z) = Some d).
+  { intros a z Ha Hz. unfold B64.std_decode. cbv zeta. rewrite !PB64.strip_app, Ha, Hz, Hstrip, app_nil_r. cbn [app].
+    apply Hcore. apply Nat.lt_succ_diag_r. }
+  destruct hs as [|h0 hs'].
+  - (* no headers *)
+    cbn [armor_headers app] in rest1.
+    destruct d as [|d0 d'].
+    + (* empty body: the END line follows at once *)
+      cbn [armor_body app] in rest1.
+      assert (Hlc : ~ In 58 label).
+      { cbn [is_nil negb orb] in Hcolon. apply has_byte_false. now destruct (has_byte 58 label). }
+      assert (Hg : MP.get_line rest1 = (MP.pem_end ++ label ++ MP.pem_dashes, post)).
+      { unfold rest1, E. apply end_marker_line; try assumption. intros H. cbn in H. repeat (destruct H as [H|H]; [discriminate|]). contradiction. }
+      rewrite (Hsplit rest1 O).
+      * unfold rest1, E. now apply finish_prefix.
+      * apply (PP.skip_headers_none _ rest1 (MP.pem_end ++ label ++ MP.pem_dashes) post O); [unfold rest1; discriminate|exact Hg|].
+        apply no_colon_intro. intros H. apply in_app_or in H as [H|H].
+        { cbn in H. repeat (destruct H as [H|H]; [discriminate|]). contradiction. }
+        apply in_app_or in H as [H|H]; [now apply Hlc|].
+        cbn in H. repeat (destruct H as [H|H]; [discriminate|]). contradiction.
+    + (* body lines *)
+      assert (Hne : d0 :: d' <> []) by discriminate.
+      pose proof (wrapped_head w crlf (d0 :: d') Hd Hne) as Hhead. fold W in Hhead.
+      assert (Hr1 : rest1 = (W ++ cr_of crlf) ++ (10 :: MP.pem_end) ++ E).
+      { unfold rest1. cbn [armor_body]. fold W. rewrite pem_eol_split. rewrite <- !app_assoc. reflexivity. }
+      assert (HWc : forallb PP.body_char (W ++ cr_of crlf) = true) by (now rewrite forallb_app, Hwc, Hccr).
+      destruct (MP.get_line rest1) as [ln nx] eqn:Hgl.
+      assert (Hsub : forall c, In c ln -> In c (W ++ pem_eol crlf)).
+      { intros c Hc. apply (PP.get_line_incl (W ++ pem_eol crlf) (MP.pem_end ++ E)).
+        - apply in_or_app. right. rewrite pem_eol_split. apply in_or_app. right. now left.
+        - replace ((W ++ pem_eol crlf) ++ MP.pem_end ++ E) with rest1; [rewrite Hgl; exact Hc|].
+          unfold rest1, W. cbn [armor_body]. rewrite <- !app_assoc. reflexivity. }
+      rewrite (Hsplit rest1 O).
+      * rewrite Hr1. apply finish_index; try assumption.
+        -- specialize (HdecW [] (cr_of crlf) eq_refl Hscr). exact HdecW.
+        -- right. destruct W; [contradiction|exact Hhead].
+      * apply (PP.skip_headers_none _ rest1 ln nx O).
+        -- rewrite Hr1. destruct W; [contradiction|discriminate].
+        -- exact Hgl.
+        -- apply no_colon_intro. intros H. apply Hsub in H. revert H.
+           apply (PP.forallb_not_in PP.body_char); [now rewrite forallb_app, Hwc, Hceol|reflexivity].
+  - (* header lines, an empty line, then the body *)
+    set (hs := h0 :: hs') in *.
+    set (x := pem_eol crlf ++ armor_body w crlf d ++ pem_end ++ E).
+    assert (Hr1 : rest1 = concat (map (fun h => h ++ pem_eol crlf) hs) ++ x).
+    { unfold rest1, x, armor_headers, hs. rewrite <- !app_assoc. reflexivity. }
+    assert (Hskip : MP.skip_headers (S (length rest1)) rest1 O = Some (x, length hs)).
+    { rewrite Hr1. change (length hs) with (0 + length hs)%nat.
+      apply (skip_headers_lines crlf hs x [] (armor_body w crlf d ++ pem_end ++ E)); try assumption.
+      - rewrite app_length. pose proof (concat_lines_length crlf hs (fun h Hin => proj1 (Hh h Hin))). lia.
+      - unfold x. destruct crlf; discriminate.
+      - unfold x. change (pem_eol crlf) with (Routes.eol crlf). apply PP.get_line_empty.
+      - reflexivity. }
+    rewrite (Hsplit x (length hs) Hskip).
+    destruct d as [|d0 d'].
+    + assert (Hx : x = cr_of crlf ++ (10 :: MP.pem_end) ++ E).
+      { unfold x. cbn [armor_body app]. rewrite pem_eol_split, <- !app_assoc. reflexivity. }
+      rewrite Hx. apply finish_index; try assumption.
+      * unfold B64.std_decode. cbv zeta. rewrite Hscr. reflexivity.
+      * left. unfold hs. discriminate.
+    + assert (Hx : x = (pem_eol crlf ++ W ++ cr_of crlf) ++ (10 :: MP.pem_end) ++ E).
+      { unfold x. cbn [armor_body]. fold W. rewrite (pem_eol_split crlf) at 2. rewrite <- !app_assoc. reflexivity. }
+      rewrite Hx. apply finish_index; try assumption.
+      * now rewrite !forallb_app, Hceol, Hwc, Hccr.
+      * now apply HdecW.
+      * left. unfold hs. discriminate.
+Qed.
+
+Lemma armor_begin : forall b, prefix_of pem_begin (armor b) = true.
+Proof. intros b. unfold armor. apply prefix_of_app. Qed.
+
+(* dec_enc, no longer a hypothesis: pem.Decode at the start of an armored block returns that block and
+   exactly the bytes after its armor *)
+Theorem pem_dec_armor : forall b rest, block_ok b = true -> (ab_fin b = true \/ rest = []) ->
+  pem_dec (armor b ++ rest) = Some (ablock_block b, rest).
+Proof.
+  intros b rest Hok Hf. unfold pem_dec, MP.pem_decode. cbn [MP.decode_go]. unfold MP.find_start.
+  assert (Hp : prefix_of MP.pem_begin (armor b ++ rest) = true).
+  { unfold armor. rewrite <- !app_assoc. apply PP.prefix_of_app. }
+  rewrite Hp. change (length MP.pem_begin) with (length pem_begin).
+  rewrite (attempt_armor b rest Hok Hf). reflexivity.
+Qed.
+
+(* ---- pem.Decode always returns a strictly shorter rest ---- *)
+Lemma get_line_snd_len : forall x, (length (snd (MP.get_line x)) <= length x)%nat.
+Proof.
+  intros x. unfold MP.get_line. destruct (MP.index_byte 10 x); cbn [snd]; [apply drop_length_le|cbn; lia].
+Qed.
+
+Lemma skip_headers_len : forall f rest n r2 n', MP.skip_headers f rest n = Some (r2, n') -> (length r2 <= length rest)%nat.
+Proof.
+  induction f as [|f IH]; intros rest n r2 n' H; [discriminate|]. cbn [MP.skip_headers] in H.
+  destruct rest as [|c r]; [discriminate|].
+  destruct (MP.get_line (c :: r)) as [line next] eqn:E.
+  destruct (existsb (fun c => c =? 58) line).
+  - apply IH in H. pose proof (get_line_snd_len (c :: r)) as Hl. rewrite E in Hl. cbn [snd] in Hl. lia.
+  - injection H as <- _. lia.
+Qed.
+
+Lemma attempt_block_len : forall r0,
+  match MP.attempt_block r0 with
+  | MP.Found _ _ r => (length r <= length r0)%nat
+  | MP.Retry r => (length r <= length r0)%nat
+  | MP.GiveUp => True
+  end.
+Proof.
+  intros r0. unfold MP.attempt_block.
+  destruct (MP.get_line r0) as [tl rest1] eqn:E1.
+  pose proof (get_line_snd_len r0) as L1. rewrite E1 in L1. cbn [snd] in L1.
+  destruct (negb (has_suffix MP.pem_dashes tl)); [exact L1|].
+  destruct (MP.skip_headers (S (length rest1)) rest1 0) as [[rest2 nh]|] eqn:E2; [|exact I].
+  pose proof (skip_headers_len _ _ _ _ _ E2) as L2.
+  assert (L : (length rest2 <= length r0)%nat) by lia.
+  destruct (if Nat.eqb nh 0 && prefix_of MP.pem_end rest2 then Some (O, length MP.pem_end)
+            else match index_of (10 :: MP.pem_end) rest2 with
+                 | Some i => Some (i, (i + S (length MP.pem_end))%nat)
+                 | None => None
+                 end) as [[ei eti]|]; [|exact L].
+  destruct (Nat.ltb _ _); [exact L|].
+  destruct (_ || _); [exact L|].
+  destruct (fst (MP.get_line _)); [|exact L].
+  destruct (B64.std_decode _ _); [|exact L].
+  pose proof (get_line_snd_len (drop (ei + length MP.pem_end) rest2)) as L3.
+  pose proof (drop_length_le _ (ei + length MP.pem_end) rest2) as L4. lia.
+Qed.
+
+Lemma find_start_len : forall rest r0, MP.find_start rest = Some r0 -> (length r0 < length rest)%nat.
+Proof.
+  intros rest r0 H. unfold MP.find_start in H.
+  destruct (prefix_of MP.pem_begin rest) eqn:E.
+  - assert (Hr : r0 = drop (length MP.pem_begin) rest) by congruence.
+    apply PP.prefix_of_length in E. rewrite Hr, drop_length.
+    change (length MP.pem_begin) with 11%nat in *. lia.
+  - destruct (index_of (10 :: MP.pem_begin) rest) as [i|] eqn:Ei; [|discriminate].
+    assert (Hr : r0 = drop (i + S (length MP.pem_begin)) rest) by congruence.
+    unfold index_of in Ei. apply PP.index_from_length in Ei. rewrite Hr, drop_length.
+    change (length (10 :: MP.pem_begin)) with 12%nat in Ei. lia.
+Qed.
+
+Lemma decode_go_len : forall f rest t b r, MP.decode_go f rest = Some (t, b, r) -> (length r < length rest)%nat.
+Proof.
+  induction f as [|f IH]; intros rest t b r H; [discriminate|]. cbn [MP.decode_go] in H.
+  destruct (MP.find_start rest) as [r0|] eqn:E0; [|discriminate].
+  apply find_start_len in E0. pose proof (attempt_block_len r0) as L.
+  destruct (MP.attempt_block r0) as [t' b' r'|r'|]; [|apply IH in H; lia|discriminate].
+  injection H as _ _ <-. lia.
+Qed.
+
+Theorem pem_dec_shorter : forall r b r', pem_dec r = Some (b, r') -> (length r' < length r)%nat.
+Proof.
+  intros r b r' H. unfold pem_dec in H. destruct (MP.pem_decode r) as [[[t bb] rr]|] eqn:E; [|discriminate].
+  injection H as _ <-. exact (decode_go_len _ _ _ _ _ E).
+Qed.
+
+(* ---- bundles, generic in how a block is written down ---- *)
+Section PemBundleG.
+  Variable B : Type.
+  Variable blk : B -> pblock.                          (* what the written block holds *)
+  Variable fin : B -> bool.                            (* its END line is terminated *)
+  Variable good : B -> bool.
+  Variable enc : B -> bytes.
+  Variable dec : bytes -> option (pblock * bytes).
+  Variable describe : pblock -> result info.
+  Variable d : pblock -> info.
+  Hypothesis enc_begin : forall b, prefix_of pem_begin (enc b) = true.
+  Hypothesis dec_enc : forall b rest, good b = true -> (fin b = true \/ rest = []) ->
+    dec (enc b ++ rest) = Some (blk b, rest).
+
+  Fixpoint render_g (items : list (bytes * B)) (tail : bytes) : bytes :=
+    match items with
+    | [] => tail
+    | (j, b) :: r => j ++ enc b ++ render_g r tail
+    end.
+  (* only the last block may lack the line ending of its END line, and only at the very end of the file *)
+  Fixpoint ends_ok (items : list (bytes * B)) (tail : bytes) : bool :=
+    match items with
+    | [] => true
+    | (_, b) :: r => match r with [] => fin b || is_nil tail | _ => fin b && ends_ok r tail end
+    end.
+  Definition bundle_ok_g (items : list (bytes * B)) (tail : bytes) : bool :=
+    forallb (fun jb => junk_ok (fst jb) && good (snd jb)) items && junk_end tail && ends_ok items tail.
+  Definition listed_g (items : list (bytes * B)) : list B :=
+    filter (fun b => negb (is_pgp_type (pb_type (blk b)))) (map snd items).
+
+  Lemma enc_nonempty_g : forall b rest, exists x r, enc b ++ rest = x :: r.
+  Proof.
+    intros b rest. destruct (prefix_of_split _ _ (enc_begin b)) as [t ->]. unfold pem_begin. cbn. eauto.
+  Qed.
+
+  Lemma bundle_ok_tail : forall jb r tail, bundle_ok_g (jb :: r) tail = true -> bundle_ok_g r tail = true.
+  Proof.
+    intros [j b] r tail H. unfold bundle_ok_g in *. cbn [forallb] in H.
+    apply andb_prop in H as [H He]. apply andb_prop in H as [Hi Ht]. apply andb_prop in Hi as [_ Hi].
+    rewrite Hi, Ht. cbn [andb]. cbn [ends_ok] in He. destruct r as [|jb2 r']; [reflexivity|].
+    now apply andb_prop in He as [_ He].
+  Qed.
+
+  Lemma bundle_ok_head : forall j b r tail, bundle_ok_g ((j, b) :: r) tail = true ->
+    junk_ok j = true /\ good b = true /\ (fin b = true \/ render_g r tail = []).
+  Proof.
+    intros j b r tail H. unfold bundle_ok_g in H. cbn [forallb fst snd] in H.
+    apply andb_prop in H as [H He]. apply andb_prop in H as [Hi Ht]. apply andb_prop in Hi as [Hjb _].
+    apply andb_prop in Hjb as [Hj Hg]. split; [exact Hj|]. split; [exact Hg|].
+    cbn [ends_ok] in He. destruct r as [|jb2 r'].
+    - cbn [render_g]. apply orb_prop in He as [He|He]; [now left|right; now apply is_nil_true].
+    - apply andb_prop in He as [He _]. now left.
+  Qed.
+
+  Lemma skip_render_g : forall items tail, bundle_ok_g items tail = true ->
+    skip_to_pem (render_g items tail) =
+      match items with
+      | [] => []
+      | (j, b) :: r => enc b ++ render_g r tail
+      end.
+  Proof.
+    intros items tail H. destruct items as [|[j b] r]; cbn [render_g].
+    - unfold bundle_ok_g in H. apply andb_prop in H as [H _]. apply andb_prop in H as [_ Ht]. now apply skip_end.
+    - destruct (bundle_ok_head _ _ _ _ H) as [Hj _]. apply skip_junk; [exact Hj|].
+      destruct (prefix_of_split _ _ (enc_begin b)) as [t ->]. rewrite <- app_assoc. apply prefix_of_app.
+  Qed.
+
+  Lemma pem_loop_bundle_g : forall items tail fuel,
+    bundle_ok_g items tail = true -> (length items < fuel)%nat ->
+    (forall b, In b (listed_g items) -> describe (blk b) = Ok (d (blk b))) ->
+    pem_loop dec describe fuel (skip_to_pem (render_g items tail)) = Ok (map (fun b => d (blk b)) (listed_g items)).
+  Proof.
+    induction items as [|[j b] r IH]; intros tail fuel Hok Hf Hd.
+    - rewrite skip_render_g by exact Hok. destruct fuel; reflexivity.
+    - rewrite skip_render_g by exact Hok.
+      destruct fuel as [|f]; [cbn in Hf; lia|].
+      destruct (enc_nonempty_g b (render_g r tail)) as [x [rr E]].
+      destruct (bundle_ok_head _ _ _ _ Hok) as (_ & Hg & Hfin).
+      cbn [pem_loop]. rewrite E. rewrite <- E. rewrite (dec_enc b _ Hg Hfin).
+      pose proof (bundle_ok_tail _ _ _ Hok) as Hok'.
+      unfold listed_g in *. cbn [map snd filter] in *.
+      destruct (is_pgp_type (pb_type (blk b))) eqn:Ep; cbn [negb] in *.
+      + apply IH; [exact Hok'|cbn in Hf; lia|exact Hd].
+      + rewrite (Hd b (or_introl eq_refl)).
+        rewrite IH; [reflexivity|exact Hok'|cbn in Hf; lia|].
+        intros b' Hb'. apply Hd. now right.
+  Qed.
+
+  Lemma render_length_g : forall items tail, (length items <= length (render_g items tail))%nat.
+  Proof.
+    induction items as [|[j b] r IH]; intros tail; cbn [length render_g]; [lia|].
+    destruct (enc_nonempty_g b []) as [x [rr E]]. rewrite app_nil_r in E.
+    rewrite !app_length, E. cbn [length]. specialize (IH tail). lia.
+  Qed.
+
+  Lemma pem_file_bundle_g : forall items tail,
+    bundle_ok_g items tail = true ->
+    (forall b, In b (listed_g items) -> describe (blk b) = Ok (d (blk b))) ->
+    pem_file dec describe (render_g items tail) =
+      match map (fun b => d (blk b)) (listed_g items) with
+      | [] => Err "no valid PEM blocks"
+      | [i] => Ok i
+      | k => Ok (Info (bs "multiple PEM blocks") [] k)
+      end.
+  Proof.
+    intros items tail Hok Hd. unfold pem_file.
+    rewrite (pem_loop_bundle_g items tail _ Hok);
+      [destruct (map (fun b => d (blk b)) (listed_g items)) as [|? [|? ?]]; reflexivity| |exact Hd].
+    pose proof (render_length_g items tail). lia.
+  Qed.
+End PemBundleG.
+
+(* ---- the instance: blocks armored as in Model/Containers.v [armor], decoded by [pem_dec] ---- *)
+Definition bundle_text : list (bytes * ablock) -> bytes -> bytes := render_g ablock armor.
+Definition bundle_text_ok : list (bytes * ablock) -> bytes -> bool := bundle_ok_g ablock ab_fin block_ok.
+Definition listed_blocks : list (bytes * ablock) -> list ablock := listed_g ablock ablock_block.
+
+Theorem pem_file_bytes : forall describe d items tail,
+  bundle_text_ok items tail = true ->
+  (forall b, In b (listed_blocks items) -> describe (ablock_block b) = Ok (d (ablock_block b))) ->
+  pem_file pem_dec describe (bundle_text items tail) =
+    match map (fun b => d (ablock_block b)) (listed_blocks items) with
+    | [] => Err "no valid PEM blocks"
+    | [i] => Ok i
+    | k => Ok (Info (bs "multiple PEM blocks") [] k)
+    end.
+Proof.
+  intros describe d. exact (pem_file_bundle_g ablock ablock_block ab_fin block_ok armor pem_dec describe d armor_begin pem_dec_armor).
+Qed.
+
+(* a block on its own, however it is written (any line width, line ending, headers, END line
+   terminated or not), is described as that block *)
+Lemma pem_file_single_bytes : forall describe d b, block_ok b = true -> is_pgp_type (ab_label b) = false ->
+  describe (ablock_block b) = Ok (d (ablock_block b)) ->
+  pem_file pem_dec describe (armor b) = Ok (d (ablock_block b)).
+Proof.
+  intros describe d b Hok Hp Hd.
+  pose proof (pem_file_bytes describe d [([], b)] []) as H.
+  unfold bundle_text in H. cbn [render_g app] in H. rewrite app_nil_r in H. rewrite H; clear H.
+  - unfold listed_blocks, listed_g. cbn [map snd filter ablock_block pb_type]. rewrite Hp. reflexivity.
+  - unfold bundle_text_ok, bundle_ok_g. cbn [forallb fst snd ends_ok is_nil]. rewrite Hok, orb_true_r. reflexivity.
+  - unfold listed_blocks, listed_g. cbn [map snd filter ablock_block pb_type]. rewrite Hp. cbn [negb].
+    intros b' [<-|[]]. exact Hd.
+Qed.
+
+Lemma pem_as_if_alone_bytes : forall describe d items tail,
+  bundle_text_ok items tail = true ->
+  (forall b, In b (listed_blocks items) -> describe (ablock_block b) = Ok (d (ablock_block b))) ->
+  (2 <= length (listed_blocks items))%nat ->
+  exists children,
+    pem_file pem_dec describe (bundle_text items tail) = Ok (Info (bs "multiple PEM blocks") [] children) /\
+    length children = length (listed_blocks items) /\
+    Forall2 (fun b c => forall b', ablock_block b' = ablock_block b -> block_ok b' = true ->
+                          pem_file pem_dec describe (armor b') = Ok c) (listed_blocks items) children.
+Proof.
+  intros describe d items tail Hok Hd Hn. exists (map (fun b => d (ablock_block b)) (listed_blocks items)).
+  split; [|split; [apply map_length|]].
+  - rewrite (pem_file_bytes describe d items tail Hok Hd).
+    destruct (listed_blocks items) as [|b1 [|b2 l]]; cbn [length] in Hn; try lia. reflexivity.
+  - apply Forall2_map_r. intros b Hb b' Heq Hok'. rewrite <- Heq. apply pem_file_single_bytes; [exact Hok'| |].
+    + unfold listed_blocks, listed_g in Hb. apply filter_In in Hb as [_ Hb].
+      assert (E : ab_label b' = ab_label b) by (unfold ablock_block in Heq; congruence).
+      rewrite E. cbn [ablock_block pb_type] in Hb. now destruct (is_pgp_type (ab_label b)).
+    + rewrite Heq. now apply Hd.
+Qed.
+
+(* the loop of PEMFile with the modelled decoder terminates: the fuel is never exhausted *)
+Lemma pem_dec_loop_fuel : forall describe,
+  (forall f1 f2 rest, (length rest < f1)%nat -> (length rest < f2)%nat ->
+     pem_loop pem_dec describe f1 rest = pem_loop pem_dec describe f2 rest) /\
+  ((forall b, describe b <> Err "fuel") ->
+   forall f rest, (length rest < f)%nat -> pem_loop pem_dec describe f rest <> Err "fuel").
+Proof.
+  intros describe. split; [exact (pem_loop_fuel pem_dec describe pem_dec_shorter)|exact (pem_loop_no_fuel_error pem_dec describe pem_dec_shorter)].
+Qed.
+
+(* non-vacuity: a bundle with leading text, a certificate-sized block in CRLF, a block with headers in lines of
+   48, an empty block, PGP armor, and a last block whose END line ends the file *)
+Definition example_blocks : list (bytes * ablock) :=
+  [(bs "Bag Attributes" ++ [10], mkablock (bs "CERTIFICATE") [] (map N.of_nat (seq 0 100)) 64 true true);
+   ([], mkablock (bs "RSA PRIVATE KEY") [bs "Proc-Type: 4,ENCRYPTED"; bs "DEK-Info: AES-128-CBC,00"] (map N.of_nat (seq 7 90)) 48 false true);
+   (bs "text - with - dashes -----BEGIN" ++ [10], mkablock (bs "PGP MESSAGE") [] [3] 64 false true);
+   ([10], mkablock (bs "PUBLIC KEY") [] [] 64 false true);
+   ([], mkablock (bs "PRIVATE KEY") [] [48; 2; 5; 0] 0 false false)].
+Lemma example_blocks_ok : bundle_text_ok example_blocks [] = true /\ length (listed_blocks example_blocks) = 4%nat.
+Proof. split; vm_compute; reflexivity. Qed.
+
+(* ====================================================================== *)
+(* Part H.  The lines of authorized_keys / known_hosts: fields, options, comment, CR *)
+
+Module B64h := WI.Model.Base64.
+
+(* the library looks at the text before the first CR only *)
+Lemma cut_at_app_same : forall c l x, cut_at c (l ++ c :: x) = cut_at c l.
+Proof.
+  intros c. induction l as [|y l IH]; intros x; cbn [app cut_at].
+  - now rewrite N.eqb_refl.
+  - destruct (y =? c); [reflexivity|]. now rewrite IH.
+Qed.
+
+Lemma auth_line_cr : forall key_of l x, auth_line key_of (l ++ 13 :: x) = auth_line key_of l.
+Proof. intros. unfold auth_line. now rewrite cut_at_app_same. Qed.
+Lemma hosts_line_cr : forall key_of l x, hosts_line key_of (l ++ 13 :: x) = hosts_line key_of l.
+Proof. intros. unfold hosts_line. now rewrite cut_at_app_same. Qed.
+
+Lemma no_lf_of_entry : forall e, entry_ok e = true -> no_lf e = true /\ no_lf (e ++ [13]) = true.
+Proof.
+  intros e H. unfold entry_ok in H. apply andb_prop in H as [_ H].
+  assert (Hn : no_lf e = true).
+  { unfold no_lf. rewrite forallb_forall in *. intros c Hc. specialize (H c Hc). lia. }
+  split; [exact Hn|]. unfold no_lf in *. now rewrite forallb_app, Hn.
+Qed.
+
+(* lib_accepts, second half, proved of the modelled line parsers: a CR at the end of an entry line makes no difference *)
+Lemma auth_lib_cr : forall key_of e, entry_ok e = true -> ssh_auth_lib key_of (e ++ [13]) = ssh_auth_lib key_of e.
+Proof.
+  intros key_of e H. destruct (no_lf_of_entry e H) as [H1 H2]. unfold ssh_auth_lib.
+  rewrite (split_lf_last _ H1), (split_lf_last _ H2). cbn [first_line]. now rewrite auth_line_cr.
+Qed.
+Lemma hosts_lib_cr : forall key_of e, entry_ok e = true -> ssh_hosts_lib key_of (e ++ [13]) = ssh_hosts_lib key_of e.
+Proof.
+  intros key_of e H. destruct (no_lf_of_entry e H) as [H1 H2]. unfold ssh_hosts_lib.
+  rewrite (split_lf_last _ H1), (split_lf_last _ H2). cbn [first_line]. now rewrite hosts_line_cr.
+Qed.
+
+Lemma model_accepts : forall lib, (forall e, entry_ok e = true -> lib (e ++ [13]) = lib e) ->
+  forall its, layout_ok its = true -> (forall e, In e (entries_of its) -> exists a, lib e = Ok a) ->
+  forall e, In e (entries_of its) -> lib_accepts lib e.
+Proof.
+  intros lib Hcr its Hok Hacc e He. destruct (Hacc e He) as [a Ha]. exists a. split; [exact Ha|].
+  rewrite Hcr; [exact Ha|]. now apply (entries_of_In_ok its).
+Qed.
+
+(* the file theorems with the modelled line parsers: the hypothesis about the CR is gone *)
+Lemma authorized_keys_model : forall key_of its le trail,
+  layout_ok its = true ->
+  (forall e, In e (entries_of its) -> exists a, ssh_auth_lib key_of e = Ok a) ->
+  authorized_keys (ssh_auth_lib key_of) (render its le trail) =
+    Ok (Info (bs "SSH authorized_keys") [] (map (ssh_child (ssh_auth_lib key_of)) (entries_of its))).
+Proof.
+  intros key_of its le trail Hok Hacc. apply authorized_keys_layout; [exact Hok|].
+  apply (model_accepts _ (auth_lib_cr key_of) its Hok Hacc).
+Qed.
+Lemma known_hosts_model : forall key_of its le trail,
+  layout_ok its = true ->
+  (forall e, In e (entries_of its) -> exists a, ssh_hosts_lib key_of e = Ok a) ->
+  known_hosts (ssh_hosts_lib key_of) (render its le trail) =
+    Ok (Info (bs "SSH known_hosts") [] (map (ssh_child (ssh_hosts_lib key_of)) (entries_of its))).
+Proof.
+  intros key_of its le trail Hok Hacc. apply known_hosts_layout; [exact Hok|].
+  apply (model_accepts _ (hosts_lib_cr key_of) its Hok Hacc).
+Qed.
+
+(* ---- trimming ---- *)
+Definition rtrim (l : bytes) : bytes := rev (trim_left_rev (rev l)).
+
+Lemma trim_space_lr : forall l, trim_space l = rtrim (trim_left_sp l).
+Proof. intros. unfold rtrim. apply trim_space_rev. Qed.
+
+Lemma trim_rev_skip_ws : forall u l, forallb is_sp1 u = true -> trim_left_rev (u ++ l) = trim_left_rev l.
+Proof.
+  induction u as [|c u IH]; intros l H; [reflexivity|]. cbn [forallb] in H. apply andb_prop in H as [Hc Hu].
+  cbn [app trim_left_rev]. rewrite Hc. now apply IH.
+Qed.
+
+(* right trimming does not look past a visible ASCII character *)
+Lemma trim_rev_app_graphic : forall g v, graphic g = true -> forall n u, (length u <= n)%nat ->
+  trim_left_rev (u ++ g :: v) = trim_left_rev u ++ g :: v.
+Proof.
+  intros g v Hg. destruct (graphic_not_sp g Hg) as (G1 & G2 & G3 & _ & G5 & G6 & G7).
+  induction n as [|n IH]; intros u Hn.
+  - destruct u; [|cbn in Hn; lia]. cbn [app trim_left_rev]. rewrite G1.
+    destruct v as [|b [|a r]]; [reflexivity| |]; rewrite G7; [reflexivity|]. now rewrite G6.
+  - destruct u as [|c r1].
+    + cbn [app trim_left_rev]. rewrite G1.
+      destruct v as [|b [|a r]]; [reflexivity| |]; rewrite G7; [reflexivity|]. now rewrite G6.
+    + cbn [app trim_left_rev]. cbn [length] in Hn.
+      destruct (is_sp1 c); [apply IH; lia|].
+      destruct r1 as [|b r2]; cbn [app].
+      * rewrite G2. destruct v as [|a r]; [reflexivity|]. now rewrite G5.
+      * cbn [length] in Hn. destruct (is_sp2 b c); [apply IH; lia|].
+        destruct r2 as [|a r3]; cbn [app].
+        -- now rewrite G3.
+        -- cbn [length] in Hn. destruct (is_sp3 a b c); [apply IH; lia|]. reflexivity.
+Qed.
+
+Lemma rtrim_fix_app : forall A g tail, graphic g = true -> rtrim tail = tail -> rtrim (A ++ g :: tail) = A ++ g :: tail.
+Proof.
+  intros A g tail Hg Ht. unfold rtrim in *.
+  assert (Hr : trim_left_rev (rev tail) = rev tail) by (rewrite <- Ht at 2; now rewrite rev_involutive).
+  rewrite rev_app_distr. cbn [rev]. rewrite <- !app_assoc. cbn [app].
+  rewrite (trim_rev_app_graphic g (rev A) Hg (length (rev tail)) (rev tail) (le_n _)), Hr.
+  rewrite rev_app_distr. cbn [rev]. rewrite !rev_involutive, <- app_assoc. reflexivity.
+Qed.
+
+Lemma rtrim_nil : rtrim [] = [].
+Proof. reflexivity. Qed.
+
+Lemma blank_is_sp1 : forall w, forallb blank_char w = true -> forallb is_sp1 w = true.
+Proof.
+  intros w H. rewrite forallb_forall in *. intros c Hc. apply blank_char_sp1. now apply H.
+Qed.
+
+Lemma forallb_rev : forall (f : N -> bool) l, forallb f l = true -> forallb f (rev l) = true.
+Proof. intros f l H. rewrite forallb_forall in *. intros c Hc. apply H. now apply in_rev. Qed.
+
+(* white space around a text that starts with a visible character and does not end in white space is all that TrimSpace removes *)
+Lemma trim_space_core : forall lw x t tw, forallb blank_char lw = true -> forallb blank_char tw = true ->
+  graphic x = true -> rtrim (x :: t) = x :: t -> trim_space (lw ++ (x :: t) ++ tw) = x :: t.
+Proof.
+  intros lw x t tw Hl Ht Hx Hr. rewrite trim_space_lr. rewrite trim_left_skip_ws by exact Hl.
+  cbn [app]. rewrite trim_left_keeps by exact Hx.
+  unfold rtrim in *. change (x :: t ++ tw) with ((x :: t) ++ tw). rewrite rev_app_distr.
+  rewrite trim_rev_skip_ws by (apply forallb_rev; now apply blank_is_sp1). exact Hr.
+Qed.
+
+Definition sp_tab_run (s : bytes) : bool := negb (is_nil s) && forallb is_sp_tab s.
+Definition no_sp_tab (w : bytes) : bool := forallb (fun c => negb (is_sp_tab c)) w.
+Definition starts_blank (t : bytes) : bool := match t with [] => true | c :: _ => is_sp_tab c end.
+
+Lemma sp_tab_blank : forall s, forallb is_sp_tab s = true -> forallb blank_char s = true.
+Proof.
+  intros s H. rewrite forallb_forall in *. intros c Hc. specialize (H c Hc). unfold is_sp_tab in H. unfold blank_char. lia.
+Qed.
+
+Lemma graphic_no_sp_tab : forall w, forallb graphic w = true -> no_sp_tab w = true.
+Proof.
+  intros w H. unfold no_sp_tab. rewrite forallb_forall in *. intros c Hc. specialize (H c Hc).
+  unfold graphic in H. unfold is_sp_tab. lia.
+Qed.
+
+Lemma span_word_app : forall w r, no_sp_tab w = true -> starts_blank r = true -> span_word (w ++ r) = (w, r).
+Proof.
+  induction w as [|c w IH]; intros r Hw Hr.
+  - cbn [app]. destruct r as [|x r]; [reflexivity|]. cbn [starts_blank] in Hr. cbn [span_word]. now rewrite Hr.
+  - cbn [no_sp_tab forallb] in Hw. apply andb_prop in Hw as [Hc Hw]. cbn [app span_word].
+    destruct (is_sp_tab c); [discriminate|]. now rewrite (IH r Hw Hr).
+Qed.
+
+Lemma skip_sp_tab_app : forall s x t, forallb is_sp_tab s = true -> is_sp_tab x = false -> skip_sp_tab (s ++ x :: t) = x :: t.
+Proof.
+  induction s as [|c s IH]; intros x t Hs Hx; cbn [app skip_sp_tab]; [now rewrite Hx|].
+  cbn [forallb] in Hs. apply andb_prop in Hs as [-> Hs]. now apply IH.
+Qed.
+
+(* the field "base64 key, comment": the comment is the rest of the line, trimmed *)
+Lemma parse_key_field_fields : forall key_of s1 b64 tail key k,
+  forallb is_sp_tab s1 = true -> b64 <> [] -> forallb graphic b64 = true ->
+  starts_blank tail = true -> rtrim tail = tail ->
+  B64h.std_decode B64h.Std b64 = Some key -> key_of key = Ok k ->
+  parse_key_field key_of (s1 ++ b64 ++ tail) = Ok (k, trim_space tail).
+Proof.
+  intros key_of s1 b64 tail key k Hs Hne Hg Hst Hrt Hdec Hk. unfold parse_key_field.
+  destruct b64 as [|x t]; [congruence|].
+  assert (Hcore : rtrim ((x :: t) ++ tail) = (x :: t) ++ tail).
+  { destruct (@exists_last _ (x :: t) ltac:(discriminate)) as [A [g E]]. rewrite E.
+    rewrite <- app_assoc. cbn [app]. apply rtrim_fix_app; [|exact Hrt].
+    rewrite forallb_forall in Hg. apply Hg. rewrite E. apply in_or_app. right. now left. }
+  assert (Ht : trim_space (s1 ++ (x :: t) ++ tail) = (x :: t) ++ tail).
+  { pose proof (trim_space_core s1 x (t ++ tail) [] (sp_tab_blank _ Hs) eq_refl) as H.
+    rewrite app_nil_r in H. apply H; [|exact Hcore].
+    cbn [forallb] in Hg. now apply andb_prop in Hg as [Hg _]. }
+  rewrite Ht. rewrite (span_word_app (x :: t) tail (graphic_no_sp_tab _ Hg) Hst).
+  now rewrite Hdec, Hk.
+Qed.
+
+(* ---- an authorized_keys entry, field by field ---- *)
+Record auth_entry := mkauth {
+  ae_lead : bytes;       (* blanks before the entry *)
+  ae_opts : bytes;       (* the options field, [] when there is none *)
+  ae_sep0 : bytes;       (* blanks after the options *)
+  ae_kt : bytes;         (* key type *)
+  ae_sep1 : bytes;
+  ae_b64 : bytes;        (* the base64 of the key blob *)
+  ae_tail : bytes;       (* [] or blanks and the comment *)
+  ae_trail : bytes }.    (* blanks after the entry *)
+
+Definition auth_core (e : auth_entry) : bytes :=
+  (match ae_opts e with [] => [] | o => o ++ ae_sep0 e end) ++ ae_kt e ++ ae_sep1 e ++ ae_b64 e ++ ae_tail e.
+Definition auth_text (e : auth_entry) : bytes := ae_lead e ++ auth_core e ++ ae_trail e.
+
+(* the quoting of an options field as sshd(8) describes it and ParseAuthorizedKey scans it: a double quote opens or
+   closes a quoted string unless a backslash precedes it; None: a blank outside quotes (the field would end there) *)
+Fixpoint quote_state (prev : option N) (inq : bool) (l : bytes) : option (option N * bool) :=
+  match l with
+  | [] => Some (prev, inq)
+  | b :: r =>
+      if negb inq && is_sp_tab b then None
+      else
+        let esc := match prev with Some p => p =? 92 | None => false end in
+        quote_state (Some b) (if (b =? 34) && negb esc then negb inq else inq) r
+  end.
+(* an options field: every quoted string is closed, blanks only inside quotes *)
+Definition opts_ok (o : bytes) : bool :=
+  match quote_state None false o with Some (_, false) => true | _ => false end.
+
+Definition no_crlf (l : bytes) : bool := forallb (fun c => negb (c =? 10) && negb (c =? 13)) l.
+Definition first_ok (w : bytes) : bool := match w with x :: _ => graphic x && negb (x =? 35) | [] => false end.
+
+Definition auth_entry_ok (e : auth_entry) : bool :=
+  forallb blank_char (ae_lead e) && forallb blank_char (ae_trail e)
+  && (match ae_opts e with
+      | [] => is_nil (ae_sep0 e)
+      | o => first_ok o && opts_ok o && sp_tab_run (ae_sep0 e)
+      end)
+  && first_ok (ae_kt e) && no_sp_tab (ae_kt e)
+  && sp_tab_run (ae_sep1 e)
+  && negb (is_nil (ae_b64 e)) && forallb graphic (ae_b64 e)
+  && starts_blank (ae_tail e) && bytes_eqb (rtrim (ae_tail e)) (ae_tail e)
+  && no_crlf (auth_text e).
+
+Lemma bytes_eqb_eq : forall a b, bytes_eqb a b = true -> a = b.
+Proof.
+  induction a as [|x a IH]; intros [|y b] H; try discriminate; [reflexivity|].
+  cbn [bytes_eqb] in H. apply andb_prop in H as [Hx H]. apply N.eqb_eq in Hx. subst y. f_equal. now apply IH.
+Qed.
+
+Lemma opt_scan_app : forall o prev inq p q rest, quote_state prev inq o = Some (p, q) -> rest <> [] ->
+  opt_scan prev inq (o ++ rest) = opt_scan p q rest.
+Proof.
+  induction o as [|b o IH]; intros prev inq p q rest H Hr.
+  - cbn in H. now injection H as -> ->.
+  - cbn [quote_state] in H. cbn [app opt_scan].
+    destruct (negb inq && is_sp_tab b); [discriminate|].
+    destruct (o ++ rest) as [|y z] eqn:E.
+    { destruct o; [cbn in E; congruence|discriminate]. }
+    rewrite <- E. now apply IH.
+Qed.
+
+Lemma opt_scan_stop : forall p s r, is_sp_tab s = true -> opt_scan p false (s :: r) = s :: r.
+Proof. intros p s r H. cbn [opt_scan negb andb]. now rewrite H. Qed.
+
+Lemma span_word_snd_blank : forall a c b, is_sp_tab c = true -> snd (span_word (a ++ c :: b)) <> [].
+Proof.
+  induction a as [|x a IH]; intros c b Hc; cbn [app span_word].
+  - rewrite Hc. discriminate.
+  - destruct (is_sp_tab x); [discriminate|]. specialize (IH c b Hc).
+    destruct (span_word (a ++ c :: b)). exact IH.
+Qed.
+
+Lemma sp_tab_run_split : forall s, sp_tab_run s = true -> exists c r, s = c :: r /\ is_sp_tab c = true /\ forallb is_sp_tab s = true.
+Proof.
+  intros [|c r] H; [discriminate|]. unfold sp_tab_run in H. cbn [is_nil negb andb] in H.
+  exists c, r. split; [reflexivity|]. split; [|exact H]. cbn [forallb] in H. now apply andb_prop in H as [H _].
+Qed.
+
+Section AuthLine.
+  Variable key_of : bytes -> result keyinfo.
+
+  Lemma auth_line_direct : forall l x t r k c, trim_space (cut_at 13 l) = x :: t -> (x =? 35) = false ->
+    snd (span_word (x :: t)) = r -> r <> [] -> parse_key_field key_of r = Ok (k, c) ->
+    auth_line key_of l = Some (Ok (key_attrs k c)).
+  Proof.
+    intros l x t r k c H Hx Hr Hne Hp. unfold auth_line. rewrite H, Hx, Hr.
+    destruct r; [congruence|]. now rewrite Hp.
+  Qed.
+
+  Lemma auth_line_opts : forall l x t r err l2 r2 k c, trim_space (cut_at 13 l) = x :: t -> (x =? 35) = false ->
+    snd (span_word (x :: t)) = r -> r <> [] -> parse_key_field key_of r = Err err ->
+    skip_sp_tab (opt_scan None false (x :: t)) = l2 -> l2 <> [] ->
+    snd (span_word l2) = r2 -> r2 <> [] -> parse_key_field key_of r2 = Ok (k, c) ->
+    auth_line key_of l = Some (Ok (key_attrs k c)).
+  Proof.
+    intros l x t r err l2 r2 k c H Hx Hr Hne Hp Hl2 Hne2 Hr2 Hne3 Hp2. unfold auth_line. rewrite H, Hx, Hr.
+    destruct r; [congruence|]. rewrite Hp, Hl2. destruct l2; [congruence|]. rewrite Hr2.
+    destruct r2; [congruence|]. now rewrite Hp2.
+  Qed.
+
+  (* every well-formed entry line - optional options with quoted blanks, commas and escaped quotes, key type, base64
+     key, optional comment, blanks around - is accepted and yields the key of its base64 field; the comment is the
+     rest of the line, trimmed.  With options: provided the text after the first blank of the line is not itself
+     "base64 of a key blob" (the library tries that first, known finding C06-ssh-quoted-key) *)
+  Theorem auth_line_entry : forall e key k,
+    auth_entry_ok e = true ->
+    B64h.std_decode B64h.Std (ae_b64 e) = Some key -> key_of key = Ok k ->
+    (ae_opts e <> [] -> exists err, parse_key_field key_of (snd (span_word (auth_core e))) = Err err) ->
+    auth_line key_of (auth_text e) = Some (Ok (key_attrs k (trim_space (ae_tail e)))).
+  Proof.
+    intros [lead opts s0 kt s1 b64 tail trail] key k Hok Hdec Hk Hfirst.
+    unfold auth_entry_ok in Hok. cbn [ae_lead ae_opts ae_sep0 ae_kt ae_sep1 ae_b64 ae_tail ae_trail] in *.
+    repeat (apply andb_prop in Hok as [Hok ?]).
+    rename H into Hcrlf, H0 into Hrt, H1 into Hst, H2 into Hg, H3 into Hne, H4 into Hs1, H5 into Hktn, H6 into Hkt, H7 into Hopts, H8 into Htrail.
+    rename Hok into Hlead.
+    apply bytes_eqb_eq in Hrt.
+    assert (Hb64 : b64 <> []) by (destruct b64; [discriminate|discriminate]).
+    destruct (sp_tab_run_split s1 Hs1) as (c1 & r1 & Es1 & Hc1 & Hs1all).
+    (* the field "key type blanks base64 tail" *)
+    assert (Hfield : parse_key_field key_of (s1 ++ b64 ++ tail) = Ok (k, trim_space tail))
+      by (now apply (parse_key_field_fields key_of s1 b64 tail key k)).
+    assert (Hspan : span_word (kt ++ s1 ++ b64 ++ tail) = (kt, s1 ++ b64 ++ tail)).
+    { apply span_word_app; [exact Hktn|]. rewrite Es1. exact Hc1. }
+    assert (Hs1ne : s1 ++ b64 ++ tail <> []) by (rewrite Es1; discriminate).
+    (* the line without the blanks around it *)
+    set (core := auth_core (mkauth lead opts s0 kt s1 b64 tail trail)).
+    assert (Hcore_rt : rtrim core = core).
+    { unfold core, auth_core. cbn [ae_opts ae_sep0 ae_kt ae_sep1 ae_b64 ae_tail].
+      destruct (@exists_last _ b64 Hb64) as [A [g E]]. rewrite E.
+      assert (Hgg : graphic g = true).
+      { rewrite forallb_forall in Hg. apply Hg. rewrite E. apply in_or_app. right. now left. }
+      match goal with |- context [?m ++ kt ++ _] => set (P := m) end.
+      replace (P ++ kt ++ s1 ++ (A ++ [g]) ++ tail) with ((P ++ kt ++ s1 ++ A) ++ g :: tail)
+        by (rewrite <- !app_assoc; reflexivity).
+      now apply rtrim_fix_app. }
+    assert (Hcut : cut_at 13 (auth_text (mkauth lead opts s0 kt s1 b64 tail trail)) = auth_text (mkauth lead opts s0 kt s1 b64 tail trail)).
+    { apply cut_at_none. exact Hcrlf. }
+    unfold auth_text in *. cbn [ae_lead ae_trail] in *. fold core in Hcut |- *.
+    destruct opts as [|o0 o'].
+    - (* no options *)
+      assert (Ecore : core = kt ++ s1 ++ b64 ++ tail) by reflexivity.
+      destruct kt as [|x t]; [discriminate|]. cbn [first_ok] in Hkt. apply andb_prop in Hkt as [Hx Hx35].
+      assert (Htrim : trim_space (lead ++ core ++ trail) = core).
+      { rewrite Ecore. cbn [app]. apply trim_space_core; try assumption; try (rewrite Ecore in Hcore_rt; exact Hcore_rt). }
+      apply (auth_line_direct _ x (t ++ s1 ++ b64 ++ tail) (s1 ++ b64 ++ tail)); try assumption.
+      + rewrite Hcut, Htrim. exact Ecore.
+      + lia.
+      + change (x :: t ++ s1 ++ b64 ++ tail) with ((x :: t) ++ s1 ++ b64 ++ tail). now rewrite Hspan.
+    - (* options first *)
+      set (opts := o0 :: o') in *.
+      apply andb_prop in Hopts as [Hopts Hs0]. apply andb_prop in Hopts as [Ho1 Hoq].
+      destruct (sp_tab_run_split s0 Hs0) as (c0 & r0 & Es0 & Hc0 & Hs0all).
+      assert (Ecore : core = opts ++ s0 ++ kt ++ s1 ++ b64 ++ tail).
+      { unfold core, auth_core, opts. cbn [ae_opts ae_sep0 ae_kt ae_sep1 ae_b64 ae_tail]. now rewrite <- app_assoc. }
+      cbn [first_ok] in Ho1. apply andb_prop in Ho1 as [Hx Hx35].
+      assert (Htrim : trim_space (lead ++ core ++ trail) = core).
+      { rewrite Ecore. unfold opts. cbn [app]. apply trim_space_core; try assumption;
+          try (rewrite Ecore in Hcore_rt; exact Hcore_rt). }
+      destruct (Hfirst ltac:(discriminate)) as [err Herr]. cbn [ae_opts] in Herr. fold core in Herr. rewrite Ecore in Herr.
+      unfold opts_ok in Hoq. destruct (quote_state None false opts) as [[p q]|] eqn:Eq; [|discriminate].
+      destruct q; [discriminate|].
+      destruct kt as [|kx ktl]; [discriminate|].
+      assert (Hkx : is_sp_tab kx = false).
+      { cbn [no_sp_tab forallb] in Hktn. apply andb_prop in Hktn as [H _]. now destruct (is_sp_tab kx). }
+      pose (L1 := opts ++ s0 ++ (kx :: ktl) ++ s1 ++ b64 ++ tail).
+      assert (G1 : trim_space (cut_at 13 (lead ++ core ++ trail)) = o0 :: (o' ++ s0 ++ (kx :: ktl) ++ s1 ++ b64 ++ tail)).
+      { rewrite Hcut, Htrim. exact Ecore. }
+      assert (G2 : (o0 =? 35) = false) by (clear - Hx35; lia).
+      assert (G3 : snd (span_word L1) <> []).
+      { unfold L1. rewrite Es0. cbn [app]. now apply span_word_snd_blank. }
+      assert (G4 : skip_sp_tab (opt_scan None false L1) = (kx :: ktl) ++ s1 ++ b64 ++ tail).
+      { unfold L1. rewrite (opt_scan_app opts None false p false _ Eq) by (rewrite Es0; discriminate).
+        rewrite Es0. cbn [app]. rewrite opt_scan_stop by exact Hc0.
+        change (c0 :: r0 ++ kx :: ktl ++ s1 ++ b64 ++ tail) with ((c0 :: r0) ++ kx :: (ktl ++ s1 ++ b64 ++ tail)).
+        rewrite <- Es0. now rewrite (skip_sp_tab_app s0 kx _ Hs0all Hkx). }
+      assert (G5 : snd (span_word ((kx :: ktl) ++ s1 ++ b64 ++ tail)) = s1 ++ b64 ++ tail) by (now rewrite Hspan).
+      exact (auth_line_opts _ o0 _ (snd (span_word L1)) err _ _ k (trim_space tail) G1 G2 eq_refl G3 Herr G4 ltac:(discriminate) G5 Hs1ne Hfield).
+  Qed.
+End AuthLine.
+
+Lemma no_crlf_no_lf : forall l, no_crlf l = true -> no_lf l = true.
+Proof.
+  intros l H. unfold no_crlf, no_lf in *. rewrite forallb_forall in *. intros c Hc. specialize (H c Hc). lia.
+Qed.
+
+Lemma drop_blank_app : forall w x t, forallb blank_char w = true -> graphic x = true -> drop_blank (w ++ x :: t) = x :: t.
+Proof.
+  induction w as [|c w IH]; intros x t Hw Hx; cbn [app drop_blank].
+  - assert (blank_char x = false) as -> by (unfold graphic in Hx; unfold blank_char; lia). reflexivity.
+  - cbn [forallb] in Hw. apply andb_prop in Hw as [-> Hw]. now apply IH.
+Qed.
+
+Lemma auth_core_head : forall e, auth_entry_ok e = true -> exists x t, auth_core e = x :: t /\ graphic x = true /\ (x =? 35) = false.
+Proof.
+  intros [lead opts s0 kt s1 b64 tail trail] Hok. unfold auth_entry_ok in Hok.
+  cbn [ae_lead ae_opts ae_sep0 ae_kt ae_sep1 ae_b64 ae_tail ae_trail] in Hok.
+  repeat (apply andb_prop in Hok as [Hok ?]).
+  unfold auth_core. cbn [ae_opts ae_sep0 ae_kt ae_sep1 ae_b64 ae_tail].
+  destruct opts as [|o0 o'].
+  - destruct kt as [|x t]; [discriminate|]. cbn [first_ok] in H6. apply andb_prop in H6 as [Hx H35].
+    exists x, (t ++ s1 ++ b64 ++ tail). split; [reflexivity|]. split; [exact Hx|lia].
+  - apply andb_prop in H7 as [H7 _]. apply andb_prop in H7 as [H7 _]. cbn [first_ok] in H7. apply andb_prop in H7 as [Hx H35].
+    exists o0, ((o' ++ s0) ++ kt ++ s1 ++ b64 ++ tail). split; [reflexivity|]. split; [exact Hx|lia].
+Qed.
+
+Lemma auth_text_entry_ok : forall e, auth_entry_ok e = true -> entry_ok (auth_text e) = true.
+Proof.
+  intros e Hok. destruct (auth_core_head e Hok) as (x & t & E & Hx & H35).
+  unfold auth_entry_ok in Hok. repeat (apply andb_prop in Hok as [Hok ?]).
+  unfold entry_ok. unfold auth_text in *. rewrite E. cbn [app]. rewrite drop_blank_app by assumption.
+  rewrite Hx, H35. cbn [negb andb]. rewrite E in H. exact H.
+Qed.
+
+Theorem auth_lib_entry : forall key_of e key k,
+  auth_entry_ok e = true ->
+  B64h.std_decode B64h.Std (ae_b64 e) = Some key -> key_of key = Ok k ->
+  (ae_opts e <> [] -> exists err, parse_key_field key_of (snd (span_word (auth_core e))) = Err err) ->
+  ssh_auth_lib key_of (auth_text e) = Ok (key_attrs k (trim_space (ae_tail e))).
+Proof.
+  intros key_of e key k Hok Hdec Hk Hfirst. unfold ssh_auth_lib.
+  assert (Hn : no_lf (auth_text e) = true).
+  { apply no_crlf_no_lf. unfold auth_entry_ok in Hok. now apply andb_prop in Hok as [_ Hok]. }
+  rewrite (split_lf_last _ Hn). cbn [first_line]. now rewrite (auth_line_entry key_of e key k Hok Hdec Hk Hfirst).
+Qed.
+
+(* ---- files whose entries are given field by field ---- *)
+Inductive aitem : Type :=
+| AEntry (e : auth_entry)
+| ABlank (ws : bytes)
+| AComment (ws text : bytes).
+Definition aitem_item (a : aitem) : item :=
+  match a with AEntry e => IEntry (auth_text e) | ABlank w => IBlank w | AComment w t => IComment w t end.
+Fixpoint aentries (l : list aitem) : list auth_entry :=
+  match l with
+  | [] => []
+  | AEntry e :: r => e :: aentries r
+  | _ :: r => aentries r
+  end.
+Definition aitem_ok (a : aitem) : bool :=
+  match a with AEntry e => auth_entry_ok e | _ => item_ok (aitem_item a) end.
+
+Lemma aentries_of : forall its, entries_of (map aitem_item its) = map auth_text (aentries its).
+Proof. induction its as [|[e|w|w t] its IH]; cbn [map aitem_item entries_of aentries]; [reflexivity|now rewrite IH|exact IH|exact IH]. Qed.
+
+Lemma aitems_layout_ok : forall its, forallb aitem_ok its = true -> layout_ok (map aitem_item its) = true.
+Proof.
+  induction its as [|a its IH]; intros H; [reflexivity|]. cbn [forallb] in H. apply andb_prop in H as [Ha H].
+  cbn [map layout_ok forallb]. fold (layout_ok (map aitem_item its)). rewrite (IH H), andb_true_r.
+  destruct a as [e|w|w t]; cbn [aitem_ok aitem_item item_ok] in *; [now apply auth_text_entry_ok|exact Ha|exact Ha].
+Qed.
+
+Lemma aentries_ok : forall its e, forallb aitem_ok its = true -> In e (aentries its) -> auth_entry_ok e = true.
+Proof.
+  induction its as [|a its IH]; intros e H Hin; [destruct Hin|]. cbn [forallb] in H. apply andb_prop in H as [Ha H].
+  destruct a as [e'|w|w t]; cbn [aentries] in Hin; try (now apply IH).
+  destruct Hin as [<-|Hin]; [exact Ha|now apply IH].
+Qed.
+
+(* what is asked of the key blob of an entry *)
+Definition auth_key_ok (key_of : bytes -> result keyinfo) (e : auth_entry) (k : keyinfo) : Prop :=
+  (exists key, B64h.std_decode B64h.Std (ae_b64 e) = Some key /\ key_of key = Ok k) /\
+  (ae_opts e <> [] -> exists err, parse_key_field key_of (snd (span_word (auth_core e))) = Err err).
+
+Definition auth_child (kinfo : auth_entry -> keyinfo) (e : auth_entry) : info :=
+  Info ssh_key_desc (key_attrs (kinfo e) (trim_space (ae_tail e))) [].
+
+Theorem authorized_keys_fields : forall key_of kinfo its le trail,
+  forallb aitem_ok its = true ->
+  (forall e, In e (aentries its) -> auth_key_ok key_of e (kinfo e)) ->
+  authorized_keys (ssh_auth_lib key_of) (render (map aitem_item its) le trail) =
+    Ok (Info (bs "SSH authorized_keys") [] (map (auth_child kinfo) (aentries its))).
+Proof.
+  intros key_of kinfo its le trail Hok Hkey.
+  assert (Hlib : forall e, In e (aentries its) ->
+            ssh_auth_lib key_of (auth_text e) = Ok (key_attrs (kinfo e) (trim_space (ae_tail e)))).
+  { intros e He. destruct (Hkey e He) as [[key [Hdec Hk]] Hfirst].
+    apply (auth_lib_entry key_of e key (kinfo e)); try assumption. now apply (aentries_ok its). }
+  rewrite authorized_keys_model.
+  - rewrite aentries_of, map_map. f_equal. f_equal. apply map_ext_in. intros e He.
+    unfold ssh_child, lib_attrs, auth_child. now rewrite (Hlib e He).
+  - now apply aitems_layout_ok.
+  - intros l Hl. rewrite aentries_of in Hl. apply in_map_iff in Hl as [e [<- He]]. rewrite (Hlib e He). eauto.
+Qed.
+
+(* non-vacuity: options with a quoted blank, an escaped quote, a comma and a '#'; tabs; comment with blanks inside *)
+Definition toy_key_of (key : bytes) : result keyinfo :=
+  match key with
+  | 0 :: 0 :: 0 :: _ => Ok (bs "ssh-toy", [(bs "Size", dec_of_N (N.of_nat (length key)))])
+  | _ => Err "ssh: unknown key algorithm"
+  end.
+Definition example_auth_entries : list auth_entry :=
+  [mkauth [] [] [] (bs "ssh-toy") [32] (bs "AAAAB3NzaC1y") ([32] ++ bs "me@host") [];
+   mkauth [32] (bs "command=""say \""hi\"" # x"",no-pty") [9] (bs "ssh-toy") [32; 32] (bs "AAAAC3Nz") ([9] ++ bs "two words") [32; 9]].
+Lemma example_auth_ok :
+  forallb auth_entry_ok example_auth_entries = true /\
+  forall e, In e example_auth_entries -> auth_key_ok toy_key_of e (bs "ssh-toy", [(bs "Size", dec_of_N (N.of_nat (length (ae_b64 e) / 4 * 3)))]).
+Proof.
+  split; [vm_compute; reflexivity|].
+  intros e [<-|[<-|[]]]; (split; [eexists; split; vm_compute; reflexivity|]).
+  - intros H. now contradiction H.
+  - intros _. eexists. vm_compute. reflexivity.
+Qed.
+
+(* ---- a known_hosts entry, field by field ---- *)
+(* bytes that cannot begin the UTF-8 encoding of a white-space rune *)
+Definition nolead (c : N) : bool := negb ((c =? 194) || (c =? 225) || (c =? 226) || (c =? 227)).
+Definition safe_byte (c : N) : bool := negb (is_sp1 c) && nolead c.
+Definition safe_word (w : bytes) : bool := negb (is_nil w) && forallb safe_byte w.
+
+Lemma safe_not_sp : forall a, safe_byte a = true -> is_sp1 a = false /\ (forall b, is_sp2 a b = false) /\ (forall b c, is_sp3 a b c = false).
+Proof.
+  intros a H. unfold safe_byte, nolead in H. apply andb_prop in H as [H1 H2].
+  split; [now destruct (is_sp1 a)|]. unfold is_sp2, is_sp3. split; intros; lia.
+Qed.
+Lemma nolead_not_sp : forall b, nolead b = true -> (forall c, is_sp2 b c = false) /\ (forall a c, is_sp3 b a c = false).
+Proof. intros b H. unfold nolead in H. unfold is_sp2, is_sp3. split; intros; lia. Qed.
+
+Lemma graphic_safe : forall c, graphic c = true -> safe_byte c = true.
+Proof. intros c H. unfold graphic in H. unfold safe_byte, nolead, is_sp1. lia. Qed.
+Lemma sp_tab_nolead : forall c, is_sp_tab c = true -> nolead c = true.
+Proof. intros c H. unfold is_sp_tab in H. unfold nolead. lia. Qed.
+Lemma safe_nolead : forall c, safe_byte c = true -> nolead c = true.
+Proof. intros c H. unfold safe_byte in H. now apply andb_prop in H as [_ H]. Qed.
+
+Lemma trim_left_keeps_safe : forall x t, safe_byte x = true -> trim_left_sp (x :: t) = x :: t.
+Proof.
+  intros x t H. destruct (safe_not_sp x H) as (H1 & H2 & H3).
+  cbn [trim_left_sp]. rewrite H1. destruct t as [|b [|c r]]; [reflexivity| |]; rewrite H2; [reflexivity|]. now rewrite H3.
+Qed.
+
+(* no white-space rune ends a text whose bytes cannot begin one and whose last byte is not ASCII white space *)
+Lemma rtrim_nolead : forall l c, forallb nolead (l ++ [c]) = true -> is_sp1 c = false -> rtrim (l ++ [c]) = l ++ [c].
+Proof.
+  intros l c Hn Hc. unfold rtrim. rewrite rev_app_distr. cbn [rev app].
+  assert (Hr : forallb nolead (rev l) = true).
+  { apply forallb_rev. rewrite forallb_app in Hn. now apply andb_prop in Hn as [Hn _]. }
+  assert (E : trim_left_rev (c :: rev l) = c :: rev l).
+  { cbn [trim_left_rev]. rewrite Hc. destruct (rev l) as [|b r2]; [reflexivity|].
+    cbn [forallb] in Hr. apply andb_prop in Hr as [Hb Hr]. destruct (nolead_not_sp b Hb) as [B2 _]. rewrite B2.
+    destruct r2 as [|a r3]; [reflexivity|]. cbn [forallb] in Hr. apply andb_prop in Hr as [Ha _].
+    destruct (nolead_not_sp a Ha) as [_ A3]. now rewrite A3. }
+  rewrite E. cbn [rev]. now rewrite rev_involutive.
+Qed.
+
+Lemma trim_space_core_safe : forall lw x t tw, forallb blank_char lw = true -> forallb blank_char tw = true ->
+  safe_byte x = true -> rtrim (x :: t) = x :: t -> trim_space (lw ++ (x :: t) ++ tw) = x :: t.
+Proof.
+  intros lw x t tw Hl Ht Hx Hr. rewrite trim_space_lr. rewrite trim_left_skip_ws by exact Hl.
+  cbn [app]. rewrite trim_left_keeps_safe by exact Hx.
+  unfold rtrim in *. change (x :: t ++ tw) with ((x :: t) ++ tw). rewrite rev_app_distr.
+  rewrite trim_rev_skip_ws by (apply forallb_rev; now apply blank_is_sp1). exact Hr.
+Qed.
+
+(* bytes.Fields *)
+Lemma fields_word : forall w cur acc l, forallb safe_byte w = true ->
+  fields_go cur acc (w ++ l) = fields_go (rev w ++ cur) acc l.
+Proof.
+  induction w as [|a w IH]; intros cur acc l H; [reflexivity|].
+  cbn [forallb] in H. apply andb_prop in H as [Ha Hw]. destruct (safe_not_sp a Ha) as (H1 & H2 & H3).
+  cbn [app fields_go]. rewrite H1.
+  assert (E : fields_go cur acc (a :: w ++ l) = fields_go (a :: cur) acc (w ++ l)).
+  { cbn [fields_go]. rewrite H1. destruct (w ++ l) as [|b [|c r]]; [reflexivity| |]; rewrite H2; [reflexivity|]. now rewrite H3. }
+  cbn [fields_go] in E. rewrite H1 in E. rewrite E. rewrite IH by exact Hw. cbn [rev]. now rewrite <- app_assoc.
+Qed.
+
+Lemma fields_sep_nil : forall s acc l, forallb is_sp_tab s = true -> fields_go [] acc (s ++ l) = fields_go [] acc l.
+Proof.
+  induction s as [|c s IH]; intros acc l H; [reflexivity|]. cbn [forallb] in H. apply andb_prop in H as [Hc Hs].
+  cbn [app fields_go]. assert (is_sp1 c = true) as -> by (unfold is_sp_tab in Hc; unfold is_sp1; lia).
+  cbn [flush_field]. now apply IH.
+Qed.
+
+Lemma fields_sep : forall s cur acc l, sp_tab_run s = true ->
+  fields_go cur acc (s ++ l) = fields_go [] (flush_field cur acc) l.
+Proof.
+  intros s cur acc l H. destruct (sp_tab_run_split s H) as (c & r & -> & Hc & Hall).
+  cbn [forallb] in Hall. apply andb_prop in Hall as [_ Hr].
+  cbn [app fields_go]. assert (is_sp1 c = true) as -> by (unfold is_sp_tab in Hc; unfold is_sp1; lia).
+  now apply fields_sep_nil.
+Qed.
+
+Definition sep_word (sw : bytes * bytes) : bytes := fst sw ++ snd sw.
+Definition sep_word_ok (sw : bytes * bytes) : bool := sp_tab_run (fst sw) && safe_word (snd sw).
+
+Lemma rev'_rev : forall (A : Type) (l : list A), rev' l = rev l.
+Proof. intros. unfold rev'. now rewrite <- rev_alt. Qed.
+
+Lemma fields_words : forall rest w acc, safe_word w = true -> forallb sep_word_ok rest = true ->
+  fields_go (rev w) acc (concat (map sep_word rest)) = rev acc ++ w :: map snd rest.
+Proof.
+  induction rest as [|[s w2] rest IH]; intros w acc Hw Hrest.
+  - cbn [map concat fields_go]. unfold safe_word in Hw. apply andb_prop in Hw as [Hne _].
+    unfold flush_field. destruct (rev w) as [|y z] eqn:E.
+    { destruct w; [discriminate|]. cbn [rev] in E. destruct (rev w); discriminate. }
+    rewrite <- E. rewrite !rev'_rev, rev_involutive. reflexivity.
+  - cbn [forallb] in Hrest. apply andb_prop in Hrest as [Hsw Hrest]. unfold sep_word_ok in Hsw. cbn [fst snd] in Hsw.
+    apply andb_prop in Hsw as [Hs Hw2].
+    cbn [map concat]. unfold sep_word at 1. cbn [fst snd]. rewrite <- !app_assoc.
+    rewrite (fields_sep s) by exact Hs.
+    assert (Hflush : flush_field (rev w) acc = w :: acc).
+    { unfold flush_field. unfold safe_word in Hw. apply andb_prop in Hw as [Hne _].
+      destruct (rev w) as [|y z] eqn:E.
+      { destruct w; [discriminate|]. cbn [rev] in E. destruct (rev w); discriminate. }
+      rewrite <- E. now rewrite rev'_rev, rev_involutive. }
+    rewrite Hflush.
+    pose proof Hw2 as Hw2'. unfold safe_word in Hw2'. apply andb_prop in Hw2' as [_ Hw2s].
+    rewrite (fields_word w2 [] (w :: acc) _ Hw2s). rewrite app_nil_r.
+    rewrite (IH w2 (w :: acc) Hw2 Hrest). cbn [rev map snd]. now rewrite <- app_assoc.
+Qed.
+
+Lemma fields_line : forall w rest, safe_word w = true -> forallb sep_word_ok rest = true ->
+  fields (w ++ concat (map sep_word rest)) = w :: map snd rest.
+Proof.
+  intros w rest Hw Hrest. unfold fields.
+  pose proof Hw as Hw'. unfold safe_word in Hw'. apply andb_prop in Hw' as [_ Hws].
+  rewrite (fields_word w [] [] _ Hws), app_nil_r. now rewrite (fields_words rest w [] Hw Hrest).
+Qed.
+
+Lemma rtrim_safe_end : forall a w, forallb nolead a = true -> safe_word w = true -> rtrim (a ++ w) = a ++ w.
+Proof.
+  intros a w Ha Hw. unfold safe_word in Hw. apply andb_prop in Hw as [Hne Hs].
+  destruct (@exists_last _ w ltac:(destruct w; [discriminate|discriminate])) as [w' [c E]]. subst w.
+  rewrite app_assoc. rewrite forallb_app in Hs. apply andb_prop in Hs as [Hs' Hc]. cbn [forallb] in Hc.
+  rewrite andb_true_r in Hc. destruct (safe_not_sp c Hc) as [C1 _].
+  apply rtrim_nolead; [|exact C1]. rewrite !forallb_app, Ha. cbn [forallb andb].
+  rewrite (safe_nolead c Hc). rewrite andb_true_r. rewrite forallb_forall in *. intros y Hy. now apply safe_nolead, Hs'.
+Qed.
+
+Lemma rtrim_words : forall rest a w, forallb nolead a = true -> safe_word w = true -> forallb sep_word_ok rest = true ->
+  rtrim (a ++ w ++ concat (map sep_word rest)) = a ++ w ++ concat (map sep_word rest).
+Proof.
+  induction rest as [|[s w2] rest IH]; intros a w Ha Hw Hrest.
+  - cbn [map concat]. rewrite app_nil_r. now apply rtrim_safe_end.
+  - cbn [forallb] in Hrest. apply andb_prop in Hrest as [Hsw Hrest]. unfold sep_word_ok in Hsw. cbn [fst snd] in Hsw.
+    apply andb_prop in Hsw as [Hs Hw2]. cbn [map concat]. unfold sep_word at 1 3. cbn [fst snd].
+    replace (a ++ w ++ (s ++ w2) ++ concat (map sep_word rest)) with ((a ++ w ++ s) ++ w2 ++ concat (map sep_word rest))
+      by (now rewrite <- !app_assoc).
+    apply IH; try assumption. rewrite !forallb_app, Ha. cbn [andb].
+    unfold safe_word in Hw. apply andb_prop in Hw as [_ Hw]. unfold sp_tab_run in Hs. apply andb_prop in Hs as [_ Hs].
+    apply andb_true_intro. split; rewrite forallb_forall in *; intros y Hy; [now apply safe_nolead, Hw|now apply sp_tab_nolead, Hs].
+Qed.
+
+Lemma join_space : forall ws b, join [32] (b :: ws) = b ++ concat (map (fun w => 32 :: w) ws).
+Proof.
+  induction ws as [|w r IH]; intros b; [cbn; now rewrite app_nil_r|].
+  change (join [32] (b :: w :: r)) with (b ++ [32] ++ join [32] (w :: r)). rewrite IH. reflexivity.
+Qed.
+
+Record hosts_entry := mkhosts {
+  he_lead : bytes;
+  he_marker : option (bytes * bytes);    (* "@cert-authority" / "@revoked" and the blanks after it *)
+  he_hosts : bytes;                      (* the host patterns, comma separated *)
+  he_sep1 : bytes; he_kt : bytes;        (* key type (the library ignores it) *)
+  he_sep2 : bytes; he_b64 : bytes;
+  he_comment : list (bytes * bytes);     (* blanks and a word, at most twice (once after a marker) *)
+  he_trail : bytes }.
+
+Definition hosts_words (e : hosts_entry) : bytes * list (bytes * bytes) :=
+  let body := (he_sep1 e, he_kt e) :: (he_sep2 e, he_b64 e) :: he_comment e in
+  match he_marker e with
+  | Some (m, s) => (m, (s, he_hosts e) :: body)
+  | None => (he_hosts e, body)
+  end.
+Definition hosts_core (e : hosts_entry) : bytes :=
+  fst (hosts_words e) ++ concat (map sep_word (snd (hosts_words e))).
+Definition hosts_text (e : hosts_entry) : bytes := he_lead e ++ hosts_core e ++ he_trail e.
+
+Definition starts_with (c : N) (w : bytes) : bool := match w with x :: _ => x =? c | [] => false end.
+
+Definition hosts_entry_ok (e : hosts_entry) : bool :=
+  forallb blank_char (he_lead e) && forallb blank_char (he_trail e)
+  && safe_word (fst (hosts_words e)) && first_ok (fst (hosts_words e))
+  && forallb sep_word_ok (snd (hosts_words e))
+  && (match he_marker e with
+      | Some (m, _) => starts_with 64 m && Nat.leb (length (he_comment e)) 1
+      | None => negb (starts_with 64 (he_hosts e)) && Nat.leb (length (he_comment e)) 2
+      end)
+  && forallb graphic (he_b64 e)
+  && no_crlf (hosts_text e).
+
+Section HostsLine.
+  Variable key_of : bytes -> result keyinfo.
+
+  Lemma hosts_line_direct : forall l x t fs fs' k c, trim_space (cut_at 13 l) = x :: t -> (x =? 35) = false ->
+    snd (span_word (x :: t)) <> [] -> fields (x :: t) = fs ->
+    Nat.ltb (length fs) 3 || Nat.ltb 5 (length fs) = false ->
+    strip_marker fs = fs' ->
+    parse_key_field key_of (join [32] (drop 2 fs')) = Ok (k, c) ->
+    hosts_line key_of l = Some (Ok (hosts_attr (hd [] fs') :: key_attrs k c)).
+  Proof.
+    intros l x t fs fs' k c H Hx Hne Hf Hlen Hm Hp. unfold hosts_line. rewrite H, Hx.
+    destruct (snd (span_word (x :: t))); [congruence|]. rewrite Hf, Hlen, Hm, Hp. reflexivity.
+  Qed.
+
+  Lemma hosts_line_generic : forall lead trail w rest hosts kt b64 comment key k,
+    forallb blank_char lead = true -> forallb blank_char trail = true ->
+    safe_word w = true -> first_ok w = true -> forallb sep_word_ok rest = true ->
+    (2 <= length rest <= 4)%nat ->
+    strip_marker (w :: map snd rest) = hosts :: kt :: b64 :: map snd comment ->
+    b64 <> [] -> forallb graphic b64 = true -> forallb sep_word_ok comment = true ->
+    no_crlf (lead ++ (w ++ concat (map sep_word rest)) ++ trail) = true ->
+    B64h.std_decode B64h.Std b64 = Some key -> key_of key = Ok k ->
+    hosts_line key_of (lead ++ (w ++ concat (map sep_word rest)) ++ trail) =
+      Some (Ok (hosts_attr hosts :: key_attrs k (join [32] (map snd comment)))).
+  Proof.
+    intros lead trail w rest hosts kt b64 comment key k Hlead Htrail Hw Hfirst Hrest Hlenr Hfs' Hb64 Hg Hcw Hcrlf Hdec Hk.
+    destruct w as [|x t]; [discriminate|]. cbn [first_ok] in Hfirst. apply andb_prop in Hfirst as [Hx Hx35].
+    assert (Hrt : rtrim ((x :: t) ++ concat (map sep_word rest)) = (x :: t) ++ concat (map sep_word rest)).
+    { exact (rtrim_words rest [] (x :: t) eq_refl Hw Hrest). }
+    set (text := lead ++ ((x :: t) ++ concat (map sep_word rest)) ++ trail) in *.
+    assert (Hcut : cut_at 13 text = text) by (apply cut_at_none; exact Hcrlf).
+    assert (Htrim : trim_space text = x :: (t ++ concat (map sep_word rest))).
+    { unfold text. cbn [app]. apply trim_space_core; assumption. }
+    assert (Hfields : fields (x :: t ++ concat (map sep_word rest)) = (x :: t) :: map snd rest).
+    { exact (fields_line (x :: t) rest Hw Hrest). }
+    set (cw := map snd comment) in *.
+    destruct rest as [|s0 r0]; [cbn in Hlenr; lia|].
+    assert (Hs0 : sp_tab_run (fst s0) = true).
+    { cbn [forallb] in Hrest. apply andb_prop in Hrest as [Hr _]. unfold sep_word_ok in Hr. now apply andb_prop in Hr as [Hr _]. }
+    assert (Hblank : snd (span_word (x :: t ++ concat (map sep_word (s0 :: r0)))) <> []).
+    { cbn [map concat]. unfold sep_word at 1.
+      destruct (sp_tab_run_split _ Hs0) as (c & r & -> & Hc & _).
+      replace (x :: t ++ ((c :: r) ++ snd s0) ++ concat (map sep_word r0))
+        with ((x :: t) ++ c :: (r ++ snd s0 ++ concat (map sep_word r0))) by (cbn [app]; now rewrite <- !app_assoc).
+      now apply span_word_snd_blank. }
+    assert (Hlen : Nat.ltb (length ((x :: t) :: map snd (s0 :: r0))) 3 || Nat.ltb 5 (length ((x :: t) :: map snd (s0 :: r0))) = false).
+    { cbn [length map]. rewrite map_length. cbn [length] in Hlenr. apply orb_false_iff. split; apply Nat.ltb_ge; lia. }
+    set (tail := concat (map (fun w0 => 32 :: w0) cw)).
+    assert (Hcwsafe : forallb safe_word cw = true).
+    { unfold cw. rewrite forallb_forall in *. intros y Hy. apply in_map_iff in Hy as [[s y'] [<- Hy]].
+      specialize (Hcw _ Hy). unfold sep_word_ok in Hcw. now apply andb_prop in Hcw as [_ Hcw]. }
+    assert (Htail : starts_blank tail = true /\ rtrim tail = tail /\ trim_space tail = join [32] cw).
+    { unfold tail. destruct cw as [|c1 cr]; [split; [reflexivity|split; reflexivity]|].
+      split; [reflexivity|].
+      cbn [forallb] in Hcwsafe. apply andb_prop in Hcwsafe as [Hc1 Hcr].
+      assert (Erest2 : concat (map (fun w0 => 32 :: w0) cr) = concat (map sep_word (map (fun w0 => ([32], w0)) cr))).
+      { rewrite map_map. reflexivity. }
+      assert (Hokr : forallb sep_word_ok (map (fun w0 => ([32], w0)) cr) = true).
+      { rewrite forallb_forall in *. intros sw Hsw. apply in_map_iff in Hsw as [y [<- Hy]]. unfold sep_word_ok. cbn [fst snd].
+        now rewrite (Hcr y Hy). }
+      cbn [map concat]. rewrite Erest2.
+      pose proof (rtrim_words _ [32] c1 eq_refl Hc1 Hokr) as R1.
+      pose proof (rtrim_words _ [] c1 eq_refl Hc1 Hokr) as R2.
+      split; [exact R1|].
+      rewrite join_space, Erest2.
+      destruct c1 as [|y yt]; [discriminate|].
+      pose proof (trim_space_core_safe [32] y (yt ++ concat (map sep_word (map (fun w0 => ([32], w0)) cr))) [] eq_refl eq_refl) as T.
+      rewrite app_nil_r in T. apply T; [|exact R2].
+      unfold safe_word in Hc1. apply andb_prop in Hc1 as [_ Hc1]. cbn [forallb] in Hc1. now apply andb_prop in Hc1 as [Hc1 _]. }
+    destruct Htail as (Hst & Hrtail & Htt).
+    assert (Hfield : parse_key_field key_of (join [32] (drop 2 (hosts :: kt :: b64 :: cw))) = Ok (k, join [32] cw)).
+    { cbn [drop]. rewrite join_space. fold tail. rewrite <- Htt.
+      exact (parse_key_field_fields key_of [] b64 tail key k eq_refl Hb64 Hg Hst Hrtail Hdec Hk). }
+    assert (G1 : trim_space (cut_at 13 text) = x :: t ++ concat (map sep_word (s0 :: r0))) by (now rewrite Hcut, Htrim).
+    assert (G2 : (x =? 35) = false) by (clear - Hx35; lia).
+    exact (hosts_line_direct _ x _ _ _ k _ G1 G2 Hblank Hfields Hlen Hfs' Hfield).
+  Qed.
+
+  Lemma not_at_fields : forall (w : bytes) (r : list bytes), starts_with 64 w = false -> strip_marker (w :: r) = w :: r.
+  Proof. intros [|x t] r H; [reflexivity|]. cbn [starts_with] in H. cbn [strip_marker]. now rewrite H. Qed.
+
+  (* every well-formed known_hosts line - optional marker, host patterns, key type, base64 key, up to two comment
+     words (one after a marker), blanks around - yields the key of its base64 field after the host list; the comment
+     is the comment words joined by single blanks *)
+  Theorem hosts_line_entry : forall e key k,
+    hosts_entry_ok e = true ->
+    B64h.std_decode B64h.Std (he_b64 e) = Some key -> key_of key = Ok k ->
+    hosts_line key_of (hosts_text e) =
+      Some (Ok (hosts_attr (he_hosts e) :: key_attrs k (join [32] (map snd (he_comment e))))).
+  Proof.
+    intros [lead marker hosts s1 kt s2 b64 comment trail] key k Hok Hdec Hk.
+    unfold hosts_entry_ok, hosts_text, hosts_core, hosts_words in *.
+    cbn [he_lead he_marker he_hosts he_sep1 he_kt he_sep2 he_b64 he_comment he_trail] in *.
+    destruct marker as [[m s]|]; cbn [fst snd] in *;
+      repeat (apply andb_prop in Hok as [Hok ?]);
+      rename Hok into Hlead, H into Hcrlf, H0 into Hg, H1 into Hmark, H2 into Hrest, H3 into Hfirst, H4 into Hw, H5 into Htrail;
+      apply andb_prop in Hmark as [Hm Hc]; apply Nat.leb_le in Hc;
+      pose proof Hrest as Hrest'; cbn [forallb] in Hrest'; repeat (apply andb_prop in Hrest' as [? Hrest']).
+    - assert (Hb64 : b64 <> []).
+      { match goal with Hb : sep_word_ok (s2, b64) = true |- _ =>
+          unfold sep_word_ok, safe_word in Hb; cbn [fst snd] in Hb; apply andb_prop in Hb as [_ Hb]; apply andb_prop in Hb as [Hb _] end.
+        destruct b64; [discriminate|discriminate]. }
+      apply (hosts_line_generic lead trail m _ hosts kt b64 comment key k); try assumption.
+      + cbn [length]. lia.
+      + destruct m as [|x t]; [discriminate|]. cbn [starts_with] in Hm. cbn [strip_marker]. now rewrite Hm.
+    - assert (Hb64 : b64 <> []).
+      { match goal with Hb : sep_word_ok (s2, b64) = true |- _ =>
+          unfold sep_word_ok, safe_word in Hb; cbn [fst snd] in Hb; apply andb_prop in Hb as [_ Hb]; apply andb_prop in Hb as [Hb _] end.
+        destruct b64; [discriminate|discriminate]. }
+      apply (hosts_line_generic lead trail hosts _ hosts kt b64 comment key k); try assumption.
+      + cbn [length]. lia.
+      + cbn [map snd]. apply not_at_fields. now destruct (starts_with 64 hosts).
+  Qed.
+End HostsLine.
+
+Lemma hosts_text_entry_ok : forall e, hosts_entry_ok e = true -> entry_ok (hosts_text e) = true.
+Proof.
+  intros e Hok. unfold hosts_entry_ok in Hok. repeat (apply andb_prop in Hok as [Hok ?]).
+  unfold entry_ok, hosts_text, hosts_core in *.
+  destruct (fst (hosts_words e)) as [|x t]; [discriminate|]. cbn [first_ok] in H3. apply andb_prop in H3 as [Hx H35].
+  cbn [app]. rewrite drop_blank_app by assumption. rewrite Hx, H35. cbn [negb andb]. exact H.
+Qed.
+
+Theorem hosts_lib_entry : forall key_of e key k,
+  hosts_entry_ok e = true ->
+  B64h.std_decode B64h.Std (he_b64 e) = Some key -> key_of key = Ok k ->
+  ssh_hosts_lib key_of (hosts_text e) = Ok (hosts_attr (he_hosts e) :: key_attrs k (join [32] (map snd (he_comment e)))).
+Proof.
+  intros key_of e key k Hok Hdec Hk. unfold ssh_hosts_lib.
+  assert (Hn : no_lf (hosts_text e) = true).
+  { apply no_crlf_no_lf. unfold hosts_entry_ok in Hok. now apply andb_prop in Hok as [_ Hok]. }
+  rewrite (split_lf_last _ Hn). cbn [first_line]. now rewrite (hosts_line_entry key_of e key k Hok Hdec Hk).
+Qed.
+
+Inductive hitem : Type :=
+| HEntry (e : hosts_entry)
+| HBlank (ws : bytes)
+| HComment (ws text : bytes).
+Definition hitem_item (a : hitem) : item :=
+  match a with HEntry e => IEntry (hosts_text e) | HBlank w => IBlank w | HComment w t => IComment w t end.
+Fixpoint hentries (l : list hitem) : list hosts_entry :=
+  match l with
+  | [] => []
+  | HEntry e :: r => e :: hentries r
+  | _ :: r => hentries r
+  end.
+Definition hitem_ok (a : hitem) : bool :=
+  match a with HEntry e => hosts_entry_ok e | _ => item_ok (hitem_item a) end.
+
+Lemma hentries_of : forall its, entries_of (map hitem_item its) = map hosts_text (hentries its).
+Proof. induction its as [|[e|w|w t] its IH]; cbn [map hitem_item entries_of hentries]; [reflexivity|now rewrite IH|exact IH|exact IH]. Qed.
+
+Lemma hitems_layout_ok : forall its, forallb hitem_ok its = true -> layout_ok (map hitem_item its) = true.
+Proof.
+  induction its as [|a its IH]; intros H; [reflexivity|]. cbn [forallb] in H. apply andb_prop in H as [Ha H].
+  cbn [map layout_ok forallb]. fold (layout_ok (map hitem_item its)). rewrite (IH H), andb_true_r.
+  destruct a as [e|w|w t]; cbn [hitem_ok hitem_item item_ok] in *; [now apply hosts_text_entry_ok|exact Ha|exact Ha].
+Qed.
+
+Lemma hentries_ok : forall its e, forallb hitem_ok its = true -> In e (hentries its) -> hosts_entry_ok e = true.
+Proof.
+  induction its as [|a its IH]; intros e H Hin; [destruct Hin|]. cbn [forallb] in H. apply andb_prop in H as [Ha H].
+  destruct a as [e'|w|w t]; cbn [hentries] in Hin; try (now apply IH).
+  destruct Hin as [<-|Hin]; [exact Ha|now apply IH].
+Qed.
+
+Definition hosts_child (kinfo : hosts_entry -> keyinfo) (e : hosts_entry) : info :=
+  Info ssh_key_desc (hosts_attr (he_hosts e) :: key_attrs (kinfo e) (join [32] (map snd (he_comment e)))) [].
+
+Theorem known_hosts_fields : forall key_of kinfo its le trail,
+  forallb hitem_ok its = true ->
+  (forall e, In e (hentries its) -> exists key, B64h.std_decode B64h.Std (he_b64 e) = Some key /\ key_of key = Ok (kinfo e)) ->
+  known_hosts (ssh_hosts_lib key_of) (render (map hitem_item its) le trail) =
+    Ok (Info (bs "SSH known_hosts") [] (map (hosts_child kinfo) (hentries its))).
+Proof.
+  intros key_of kinfo its le trail Hok Hkey.
+  assert (Hlib : forall e, In e (hentries its) ->
+            ssh_hosts_lib key_of (hosts_text e) = Ok (hosts_attr (he_hosts e) :: key_attrs (kinfo e) (join [32] (map snd (he_comment e))))).
+  { intros e He. destruct (Hkey e He) as [key [Hdec Hk]].
+    apply (hosts_lib_entry key_of e key (kinfo e)); try assumption. now apply (hentries_ok its). }
+  rewrite known_hosts_model.
+  - rewrite hentries_of, map_map. f_equal. f_equal. apply map_ext_in. intros e He.
+    unfold ssh_child, lib_attrs, hosts_child. now rewrite (Hlib e He).
+  - now apply hitems_layout_ok.
+  - intros l Hl. rewrite hentries_of in Hl. apply in_map_iff in Hl as [e [<- He]]. rewrite (Hlib e He). eauto.
+Qed.
+
+Definition example_hosts_entries : list hosts_entry :=
+  [mkhosts [] None (bs "example.com,10.0.0.1") [32] (bs "ssh-toy") [32] (bs "AAAAB3NzaC1y") [([32], bs "two"); ([9; 32], bs "words")] [];
+   mkhosts [9] (Some (bs "@cert-authority", [32; 32])) (bs "*.example.org") [9] (bs "ssh-toy") [32] (bs "AAAAC3Nz") [([32], bs "ca")] [32]].
+Lemma example_hosts_ok :
+  forallb hosts_entry_ok example_hosts_entries = true /\
+  forall e, In e example_hosts_entries -> exists key, B64h.std_decode B64h.Std (he_b64 e) = Some key /\ toy_key_of key = Ok (bs "ssh-toy", [(bs "Size", dec_of_N (N.of_nat (length (he_b64 e) / 4 * 3)))]).
+Proof.
+  split; [vm_compute; reflexivity|].
+  intros e [<-|[<-|[]]]; eexists; split; vm_compute; reflexivity.
+Qed.
+
+(* ====================================================================== *)
+(* Part I.  Keystores: nothing is outside - every stream the reader accepts is the writing of its entries *)
+
+Lemma take_drop_id : forall (A : Type) k (l : list A), take k l ++ drop k l = l.
+Proof. induction k as [|k IH]; intros [|x l]; cbn [take drop app]; try reflexivity. now rewrite IH. Qed.
+
+Lemma take_length_le : forall (A : Type) k (l : list A), (k <= length l)%nat -> length (take k l) = k.
+Proof. induction k as [|k IH]; intros [|x l] H; cbn [take length] in *; try lia. rewrite IH; lia. Qed.
+
+Lemma bytes_ok_app : forall a b, bytes_ok (a ++ b) = bytes_ok a && bytes_ok b.
+Proof. intros. unfold bytes_ok. apply forallb_app. Qed.
+
+Lemma be_acc_snoc : forall b x acc, be_to_N_acc acc (b ++ [x]) = be_to_N_acc acc b * 256 + x.
+Proof. intros. rewrite be_acc_app. reflexivity. Qed.
+
+(* big-endian decoding of w octets is inverted by the w-octet encoder *)
+Lemma N_to_be_of_be : forall b, bytes_ok b = true -> N_to_be (length b) (be_to_N b) = b /\ be_to_N b < 256 ^ N.of_nat (length b).
+Proof.
+  unfold be_to_N. induction b as [|x b IH] using rev_ind; intros H.
+  - split; [reflexivity|cbn; lia].
+  - rewrite bytes_ok_app in H. apply andb_prop in H as [Hb Hx]. unfold bytes_ok in Hx. cbn [forallb] in Hx. unfold byte_ok in Hx.
+    destruct (IH Hb) as [I1 I2]. rewrite be_acc_snoc. rewrite app_length. cbn [length].
+    replace (length b + 1)%nat with (S (length b)) by lia. cbn [N_to_be].
+    replace ((be_to_N_acc 0 b * 256 + x) / 256) with (be_to_N_acc 0 b) by (apply N.div_unique with x; lia).
+    replace ((be_to_N_acc 0 b * 256 + x) mod 256) with x by (apply N.mod_unique with (be_to_N_acc 0 b); lia).
+    rewrite I1. split; [reflexivity|]. rewrite Nat2N.inj_succ, N.pow_succ_r'. lia.
+Qed.
+
+(* what a successful read says about the bytes in front of the reader *)
+Lemma read_n_inv : forall n r b r', read_n n r = Ok (b, r') ->
+  fst r = b ++ fst r' /\ N.of_nat (length b) = n.
+Proof.
+  intros n r b r' H. unfold read_n in H. destruct (N.of_nat (length (fst r)) <? n) eqn:E; [discriminate|].
+  injection H as <- <-. cbn [fst]. split; [now rewrite take_drop_id|]. rewrite take_length_le; lia.
+Qed.
+
+Lemma read_u_inv : forall w r v r', bytes_ok (fst r) = true -> read_u (N.of_nat w) r = Ok (v, r') ->
+  fst r = N_to_be w v ++ fst r' /\ v < 256 ^ N.of_nat w /\ bytes_ok (fst r') = true.
+Proof.
+  intros w r v r' Hok H. unfold read_u in H. destruct (read_n (N.of_nat w) r) as [[b r1]|e|e] eqn:E; try discriminate.
+  injection H as <- <-. destruct (read_n_inv _ _ _ _ E) as [E1 E2]. apply Nat2N.inj in E2.
+  rewrite E1 in Hok. rewrite bytes_ok_app in Hok. apply andb_prop in Hok as [Hb Hr].
+  destruct (N_to_be_of_be b Hb) as [I1 I2]. rewrite E2 in I1, I2. rewrite I1. auto.
+Qed.
+
+Lemma read_n_ok : forall n r b r', bytes_ok (fst r) = true -> read_n n r = Ok (b, r') -> bytes_ok b = true /\ bytes_ok (fst r') = true.
+Proof.
+  intros n r b r' Hok H. destruct (read_n_inv _ _ _ _ H) as [E _]. rewrite E, bytes_ok_app in Hok. now apply andb_prop in Hok.
+Qed.
+
+Lemma read_string_inv : forall r s r', bytes_ok (fst r) = true -> read_string r = Ok (s, r') ->
+  fst r = enc_string s ++ fst r' /\ N.of_nat (length s) < 65536 /\ bytes_ok (fst r') = true.
+Proof.
+  intros r s r' Hok H. unfold read_string in H. destruct (read_u 2 r) as [[l r1]|e|e] eqn:E; try discriminate.
+  destruct (read_u_inv 2 r l r1 Hok E) as (E1 & E2 & Hok1).
+  destruct (read_n_inv _ _ _ _ H) as [E3 E4]. destruct (read_n_ok _ _ _ _ Hok1 H) as [_ Hok2].
+  unfold enc_string. rewrite E4, E1, E3. rewrite <- app_assoc. split; [reflexivity|]. split; [exact E2|exact Hok2].
+Qed.
+
+Lemma bytes_ok_drop : forall k l, bytes_ok l = true -> bytes_ok (drop k l) = true.
+Proof. intros k l H. unfold bytes_ok in *. now apply PP.forallb_drop. Qed.
+
+Lemma read_certs_inv : forall fuel count r cs r', bytes_ok (fst r) = true -> read_certs fuel count r = Ok (cs, r') ->
+  fst r = concat (map enc_cert cs) ++ fst r' /\ N.of_nat (length cs) = count /\ forallb cert_ok cs = true /\ bytes_ok (fst r') = true.
+Proof.
+  induction fuel as [|f IH]; intros count r cs r' Hok H; cbn [read_certs] in H.
+  - destruct (count =? 0) eqn:E0; [|discriminate]. injection H as <- <-. cbn. repeat split; try assumption. lia.
+  - destruct (count =? 0) eqn:E0; [injection H as <- <-; cbn; repeat split; try assumption; lia|].
+    destruct (read_string r) as [[t r1]|e|e] eqn:E1; try discriminate.
+    destruct (read_string_inv _ _ _ Hok E1) as (S1 & S2 & Hok1).
+    destruct (read_u 4 r1) as [[l r2]|e|e] eqn:E2; try discriminate.
+    destruct (read_u_inv 4 r1 l r2 Hok1 E2) as (U1 & U2 & Hok2).
+    destruct (read_n l r2) as [[b r3]|e|e] eqn:E3; try discriminate.
+    destruct (read_n_inv _ _ _ _ E3) as [N1 N2]. destruct (read_n_ok _ _ _ _ Hok2 E3) as [_ Hok3].
+    destruct (read_certs f (count - 1) r3) as [[cs' r4]|e|e] eqn:E4; try discriminate.
+    injection H as <- <-. destruct (IH _ _ _ _ Hok3 E4) as (I1 & I2 & I3 & I4).
+    cbn [map concat length forallb]. unfold enc_cert at 1. cbn [jc_type jc_bytes].
+    rewrite S1, U1, N1, I1, N2. rewrite <- ?app_assoc. split; [reflexivity|]. split; [lia|]. split; [|exact I4].
+    rewrite I3, andb_true_r. unfold cert_ok. cbn [jc_type jc_bytes]. change (256 ^ N.of_nat 4) with 4294967296 in U2. lia.
+Qed.
+
+Section JksComplete.
+  Variable secret : N -> bytes -> result (N * bytes * bytes).
+
+  Lemma read_entry_inv : forall fuel r e r', bytes_ok (fst r) = true -> read_entry secret fuel r = Ok (e, r') ->
+    exists blob, fst r = enc_entry (e, blob) ++ fst r' /\ jentry_ok e = true /\ bytes_ok (fst r') = true.
+  Proof.
+    intros fuel r e r' Hok H. unfold read_entry in H.
+    destruct (read_u 4 r) as [[typ r1]|x|x] eqn:E1; try discriminate.
+    destruct (read_u_inv 4 r typ r1 Hok E1) as (T1 & T2 & Hok1). change (256 ^ N.of_nat 4) with 4294967296 in T2.
+    destruct (read_string r1) as [[alias r2]|x|x] eqn:E2; try discriminate.
+    destruct (read_string_inv _ _ _ Hok1 E2) as (A1 & A2 & Hok2).
+    destruct (read_u 8 r2) as [[date r3]|x|x] eqn:E3; try discriminate.
+    destruct (read_u_inv 8 r2 date r3 Hok2 E3) as (D1 & D2 & Hok3). change (256 ^ N.of_nat 8) with 18446744073709551616 in D2.
+    assert (Hhead : fst r = N_to_be 4 typ ++ enc_string alias ++ N_to_be 8 date ++ fst r3).
+    { rewrite T1, A1, D1. now rewrite <- ?app_assoc. }
+    assert (Hpre : (typ <? 4294967296) && (N.of_nat (length alias) <? 65536) && (date <? 18446744073709551616) = true) by lia.
+    destruct (typ =? 1) eqn:Et1.
+    - apply N.eqb_eq in Et1. subst typ.
+      destruct (read_u 4 r3) as [[l r4]|x|x] eqn:E4; try discriminate.
+      destruct (read_u_inv 4 r3 l r4 Hok3 E4) as (L1 & L2 & Hok4). change (256 ^ N.of_nat 4) with 4294967296 in L2.
+      destruct (read_n l r4) as [[key r5]|x|x] eqn:E5; try discriminate.
+      destruct (read_n_inv _ _ _ _ E5) as [K1 K2]. destruct (read_n_ok _ _ _ _ Hok4 E5) as [_ Hok5].
+      destruct (read_u 4 r5) as [[cc r6]|x|x] eqn:E6; try discriminate.
+      destruct (read_u_inv 4 r5 cc r6 Hok5 E6) as (C1 & C2 & Hok6). change (256 ^ N.of_nat 4) with 4294967296 in C2.
+      destruct (read_certs fuel cc r6) as [[cs r7]|x|x] eqn:E7; try discriminate.
+      destruct (read_certs_inv _ _ _ _ _ Hok6 E7) as (R1 & R2 & R3 & Hok7).
+      injection H as <- <-. exists []. split; [|split; [|exact Hok7]].
+      + unfold enc_entry. cbn [fst snd je_type je_alias je_date je_key je_certs]. change (1 =? 1) with true. cbv iota.
+        rewrite Hhead, L1, K1, C1, R1, K2, R2. now rewrite <- ?app_assoc.
+      + unfold jentry_ok. cbn [je_type je_alias je_date je_key je_seal je_certs]. change (1 =? 1) with true. cbv iota.
+        rewrite Hpre, R3. cbn [is_nil andb]. lia.
+    - destruct (typ =? 2) eqn:Et2.
+      + apply N.eqb_eq in Et2. subst typ.
+        destruct (read_certs fuel 1 r3) as [[cs r7]|x|x] eqn:E7; try discriminate.
+        destruct (read_certs_inv _ _ _ _ _ Hok3 E7) as (R1 & R2 & R3 & Hok7).
+        injection H as <- <-. exists []. split; [|split; [|exact Hok7]].
+        * unfold enc_entry. cbn [fst snd je_type je_alias je_date je_key je_certs]. change (2 =? 1) with false. change (2 =? 2) with true. cbv iota.
+          rewrite Hhead, R1. now rewrite <- ?app_assoc.
+        * unfold jentry_ok. cbn [je_type je_alias je_date je_key je_seal je_certs]. change (2 =? 1) with false. change (2 =? 2) with true. cbv iota.
+          rewrite Hpre. cbn [is_nil andb]. destruct cs as [|c [|c2 cs]]; cbn [length] in R2; try lia.
+          cbn [forallb] in R3. now rewrite andb_true_r in R3.
+      + destruct (typ =? 3) eqn:Et3.
+        * apply N.eqb_eq in Et3. subst typ.
+          destruct (secret (snd r3) (fst r3)) as [[[n seal] content]|x|x] eqn:Es; try discriminate.
+          injection H as <- <-. exists (take (N.to_nat n) (fst r3)). split; [|split].
+          -- unfold enc_entry. cbn [fst snd je_type je_alias je_date je_key je_certs]. change (3 =? 1) with false. change (3 =? 2) with false. change (3 =? 3) with true. cbv iota.
+             rewrite Hhead. rewrite <- ?app_assoc. now rewrite take_drop_id.
+          -- unfold jentry_ok. cbn [je_type je_alias je_date je_key je_seal je_certs]. change (3 =? 1) with false. change (3 =? 2) with false. change (3 =? 3) with true. cbv iota.
+             rewrite Hpre. reflexivity.
+          -- cbn [fst]. now apply bytes_ok_drop.
+        * injection H as <- <-. exists []. split; [|split; [|exact Hok3]].
+          -- unfold enc_entry. cbn [fst snd je_type je_alias je_date je_key je_certs]. rewrite Et1, Et2, Et3. rewrite Hhead. now rewrite <- ?app_assoc.
+          -- unfold jentry_ok. cbn [je_type je_alias je_date je_key je_seal je_certs]. rewrite Et1, Et2, Et3, Hpre. reflexivity.
+  Qed.
+
+  Lemma read_entries_inv : forall fuel count r es r', bytes_ok (fst r) = true -> read_entries secret fuel count r = Ok (es, r') ->
+    exists ebs, map fst ebs = es /\ fst r = concat (map enc_entry ebs) ++ fst r' /\ N.of_nat (length ebs) = count
+      /\ forallb (fun eb => jentry_ok (fst eb)) ebs = true /\ bytes_ok (fst r') = true.
+  Proof.
+    induction fuel as [|f IH]; intros count r es r' Hok H; cbn [read_entries] in H.
+    - destruct (count =? 0) eqn:E0; [|discriminate]. injection H as <- <-. exists []. cbn. repeat split; try assumption. lia.
+    - destruct (count =? 0) eqn:E0; [injection H as <- <-; exists []; cbn; repeat split; try assumption; lia|].
+      destruct (read_entry secret (S (length (fst r))) r) as [[e r1]|x|x] eqn:E1; try discriminate.
+      destruct (read_entry_inv _ _ _ _ Hok E1) as (blob & B1 & B2 & Hok1).
+      destruct (read_entries secret f (count - 1) r1) as [[es' r2]|x|x] eqn:E2; try discriminate.
+      injection H as <- <-. destruct (IH _ _ _ _ Hok1 E2) as (ebs & I1 & I2 & I3 & I4 & I5).
+      exists ((e, blob) :: ebs). cbn [map fst concat length forallb]. rewrite I1, B1, I2, B2, I4. rewrite <- ?app_assoc.
+      repeat split; try assumption. lia.
+  Qed.
+
+  (* the keystore codec, converse direction: a stream of octets that InsecureParse accepts IS the writing of the entries
+     it returns (with, for every SecretKeyEntry, the bytes the sealed-object reader consumed) - nothing the reader
+     accepts is outside the domain of C06_jks *)
+  Theorem jks_parse_complete : forall data es, bytes_ok data = true -> jks_parse secret data = Ok es ->
+    exists magic version ebs mac,
+      magic_ok magic /\ version < 4294967296 /\ N.of_nat (length ebs) < 4294967296 /\ length mac = 20%nat /\
+      forallb (fun eb => jentry_ok (fst eb)) ebs = true /\ map fst ebs = es /\
+      data = jks_encode magic version ebs mac.
+  Proof.
+    intros data es Hok H. unfold jks_parse in H.
+    destruct (Nat.ltb (length data) 4); [discriminate|].
+    destruct (prefix_of jks_magic data || prefix_of jceks_magic data) eqn:Em; [|discriminate].
+    destruct (read_n 12 (data, 0)) as [[hdr r1]|x|x] eqn:E1; try discriminate.
+    destruct (read_n_inv _ _ _ _ E1) as [H1 H2]. destruct (read_n_ok 12 (data, 0) hdr r1 Hok E1) as [Hokh Hok1]. cbn [fst] in H1.
+    destruct (read_entries secret (S (length data)) (be_to_N (drop 8 hdr)) r1) as [[es' r2]|x|x] eqn:E2; try discriminate.
+    destruct (read_entries_inv _ _ _ _ _ Hok1 E2) as (ebs & I1 & I2 & I3 & I4 & Hok2).
+    destruct (read_n 20 r2) as [[mac r3]|x|x] eqn:E3; try discriminate.
+    destruct (read_n_inv _ _ _ _ E3) as [M1 M2].
+    destruct (fst r3) eqn:E4; [|discriminate]. injection H as <-.
+    (* the header: magic, version, count *)
+    assert (Hl : length hdr = 12%nat) by lia.
+    destruct hdr as [|a0 [|a1 [|a2 [|a3 [|b0 [|b1 [|b2 [|b3 [|c0 [|c1 [|c2 [|c3 [|z hdr]]]]]]]]]]]]]; try discriminate Hl.
+    cbn [drop] in *.
+    assert (Hmagic : magic_ok [a0; a1; a2; a3]).
+    { rewrite H1 in Em. cbn [app prefix_of jks_magic jceks_magic] in Em. unfold magic_ok, jks_magic, jceks_magic.
+      apply orb_prop in Em as [Em|Em]; repeat (apply andb_prop in Em as [? Em]);
+        repeat match goal with Hx : (_ =? _) = true |- _ => apply N.eqb_eq in Hx end; subst; [left|right]; reflexivity. }
+    change [a0; a1; a2; a3; b0; b1; b2; b3; c0; c1; c2; c3] with ([a0; a1; a2; a3] ++ [b0; b1; b2; b3] ++ [c0; c1; c2; c3]) in Hokh.
+    rewrite !bytes_ok_app in Hokh. apply andb_prop in Hokh as [_ Hokh]. apply andb_prop in Hokh as [Hv Hc].
+    destruct (N_to_be_of_be _ Hv) as [V1 V2]. destruct (N_to_be_of_be _ Hc) as [C1 C2]. cbn [length] in V1, V2, C1, C2.
+    exists [a0; a1; a2; a3], (be_to_N [b0; b1; b2; b3]), ebs, mac.
+    split; [exact Hmagic|]. split; [exact V2|]. split; [rewrite I3; exact C2|]. split; [lia|]. split; [exact I4|]. split; [exact I1|].
+    unfold jks_encode. rewrite V1, I3, C1. rewrite H1, I2, M1. rewrite ?E4, ?app_nil_r. reflexivity.
+  Qed.
+End JksComplete.
+
+(* every accepted keystore is listed entry by entry, in stream order *)
+Lemma keystore_file_accepted : forall secret cert_info enc_name desc data es,
+  jks_parse secret data = Ok es ->
+  (forall e, In e es -> certs_calm cert_info (je_certs e)) ->
+  keystore_file cert_info enc_name true secret desc data = Ok (Info desc [] (map (entry_child cert_info enc_name) es)).
+Proof.
+  intros secret cert_info enc_name desc data es Hp Hcalm. unfold keystore_file. rewrite Hp.
+  now rewrite jks_entries_total.
+Qed.
